@@ -39,16 +39,23 @@ RULE = ("histories of 2..14 operations: public mutators (translate_rotate on sce
         "followed by one that reads it. distinct = canonical JSON of the history; non-trivial = contains query -> mutator -> query on "
         "the same cache")
 ASSUMPTIONS = [
-    "the mutators generated are the 24 of CR.Cache.Mut; three (cache, mutator) pairs are stale on the real code and recorded in "
-    "known-findings.txt with their own keys (C11_unsound_pairs): Trajectory.translate_rotate / append_state on the trajectory a "
-    "prediction holds vs occupancy_set, Lanelet.translate_rotate on a lanelet a network holds vs the spatial index; while such a "
-    "cache is tainted a stale answer is attributed to that mutator (the model still has to predict the exact stale answer)",
-    "NOT generated (outside the mutators the property lists): assignments to attributes of a state object, vertex setters of a "
-    "lanelet, cycle.cycle_elements.append, edits of an Occupancy returned by a query, and Trajectory.initial_time_step= (it "
-    "produces a trajectory the public constructor rejects, so 'freshly constructed from the current primary data' is undefined)",
+    "DIMENSIONS lists every constructor parameter, settable attribute, public method and read-only attribute of the 12 anchored "
+    "classes with one decision each (varied / query / fixed / outside / n/a); check_dimensions() compares it with the real classes on "
+    "every run (a new or vanished name is exit 2)",
+    "three (cache, mutator) pairs are stale on the real code and recorded in known-findings.txt with their own keys (C11_unsound_pairs): "
+    "Trajectory.translate_rotate / append_state on the trajectory a prediction holds vs occupancy_set, Lanelet.translate_rotate on a "
+    "lanelet a network holds vs the spatial index; while such a cache is tainted a stale answer is attributed to that mutator "
+    "(the model still has to predict the exact stale answer)",
+    "NOT generated (outside the mutators the property lists; see the 'outside' entries of DIMENSIONS): assignments to attributes of a "
+    "state object the obstacle holds other than through initial_state=, vertex setters and the distance setter of a lanelet, edits of "
+    "an Occupancy returned by a TrajectoryPrediction query, Trajectory.initial_time_step= (it produces a trajectory the public "
+    "constructor rejects), history lists of unequal length handed to the DynamicObstacle constructor, update_initial_state with a "
+    "non-InitialState argument (it raises after appending to the histories), DynamicObstacle wheelbase_lengths with more than one shape",
     "add_lanelet / remove_lanelet with rtree=False ask for the index NOT to be rebuilt: lookups are compared with the model but "
-    "not judged by the oracle until an add/remove with rtree=True has rebuilt it",
-    "after a mutator raised (translate_rotate on 3-D vertices) the history ends: the property speaks about completed mutations",
+    "not judged by the oracle until an add/remove with rtree=True has rebuilt it; likewise after a network translate_rotate that raised "
+    "half way on a 3-D lanelet (the model says which lanelets moved) until a later translate_rotate / replacement rebuilds the index",
+    "raising mutators: the generated ones raise before they change anything (the model: state unchanged) and the history goes on; the "
+    "oracle reports a mutator that leaves primary data the public constructors reject",
     "version tokens of the model are materialised by fresh objects built from snapshots (copy.deepcopy of the public getters' values)",
 ]
 TRUSTED = ["copy.deepcopy / pickle of numpy arrays and commonroad value objects reproduce the primary data"]
@@ -71,8 +78,10 @@ ROWS = [
     ("laneletInnerDistance", "netTranslateRotate"), ("laneletInnerDistance", "netConvert2d"),
     ("networkIndex", "netAddLanelet"), ("networkIndex", "netAddFromNetwork"), ("networkIndex", "netRemoveLanelet"), ("networkIndex", "netTranslateRotate"),
     ("networkIndex", "netConvert2d"), ("networkIndex", "netDeepcopy"), ("networkIndex", "netPickle"),
-    ("networkIndex", "lanTranslateRotate"), ("networkIndex", "lanConvert2d"),
+    ("networkIndex", "lanTranslateRotate"), ("networkIndex", "lanConvert2d"), ("networkIndex", "netCreateFrom"), ("networkIndex", "netReplace"),
+    ("laneletPolygon", "netReplace"), ("laneletDistance", "netReplace"), ("laneletInnerDistance", "netReplace"),
     ("cycleInit", "cycSetElements"), ("cycleInit", "cycSetOffset"), ("cycleInit", "cycSetActive"),
+    ("cycleInit", "elemSetDuration"), ("cycleInit", "elemSetState"), ("cycleInit", "elemsListEdit"),
 ]
 # the pairs CR.Cache.unsoundPairs lists (C11_unsound_pairs): stale on the real code, recorded in known-findings.txt
 UNSOUND = [("occupancySet", "trajTranslateRotate"), ("occupancySet", "trajAppendState"), ("networkIndex", "lanTranslateRotate")]
@@ -82,7 +91,14 @@ REQUIRED_BUCKETS = [f"row/{i}/{m}" for i, m in ROWS] + [
     "net/by-shape", "net/old-place", "net/add-from-refused", "lan/3d", "lan/3d-move-raises", "cyc/replace", "cyc/length-change",
     "mut/trajectory-same-object-reassigned", "hist/bound-lowered", "mut/held-trajectory-translate", "mut/held-trajectory-append",
     "mut/member-lanelet-translate", "mut/member-lanelet-convert2d", "net/stale-entry-survives-rebuild", "hist/moved",
-    "mut/cycle-elements-same-list-reassigned", "mut/initial-state-same-object-reassigned"]
+    "mut/cycle-elements-same-list-reassigned", "mut/initial-state-same-object-reassigned",
+    "dim/obstacle-id", "dim/signal-series", "dim/shape-group", "dim/obstacle-wheelbase", "dim/ctor-history", "dim/state-class-pm",
+    "dim/state-class-unc", "dim/trajectory-gap", "dim/prediction-ctor-options", "dim/query-through-scenario", "dim/read-only-span",
+    "dim/meta-setters", "dim/raising-mutator-then-queries", "dim/setbased-setter", "dim/setbased-tr", "dim/setbased-shape",
+    "dim/setbased-time", "dim/lanelet-int-vertices", "dim/lanelet-stop-line", "dim/lanelet-reader-convert", "dim/lanelet-reader-contains",
+    "dim/lanelet-reader-interpolate", "dim/index-reader-state", "dim/index-reader-subnet", "dim/create-from-network", "dim/replace-network",
+    "dim/remove-lanelet-list", "dim/half-moved-network-then-queries", "dim/cycle-copy", "dim/cycle-set_dur", "dim/cycle-set_state",
+    "dim/cycle-list_edit"]
 
 TOL = 1e-9
 
@@ -124,6 +140,9 @@ def plain(x):
         return {str(k): plain(v) for k, v in sorted(x.items(), key=lambda kv: str(kv[0]))}
     if isinstance(x, enum.Enum):
         return x.name
+    from commonroad.common.util import Interval
+    if isinstance(x, Interval):
+        return ["interval", float(x.start), float(x.end)]
     return c_any(x)
 
 
@@ -214,6 +233,345 @@ def same_states(a, b):
             elif not same(x[2][k], y[2][k]):
                 return False
     return True
+
+
+# ------------------------------------------------------------------------------------------------ dimension table
+
+# Every constructor parameter, settable attribute, public method and read-only attribute of the classes C11 anchors, with the
+# decision how the generator treats it: "varied: how" | "query: which query reads it" | "fixed: why it cannot reach a cache of C11" |
+# "outside: why it is outside the property's quantifier" | "n/a: ...".  check_dimensions() compares the table with the real classes
+# on every run: a name the code has and the table does not (or the other way round) is an infrastructure error (exit 2).
+DIMENSIONS = {'TrajectoryPrediction': {'trajectory': 'varied: 1..8 states; KSState / PMState / uncertain position; contiguous steps or a gap (g_traj)',
+                          'shape': 'varied: rectangle / circle / polygon, centred or off-centre, ShapeGroup (g_shape)',
+                          'center_lanelet_assignment': "varied: None or a dict at construction (pred 'asg'); setter op p_asg",
+                          'shape_lanelet_assignment': "varied: None or a dict at construction (pred 'asg'); setter op p_asg",
+                          'kwargs': "varied: wheelbase_lengths keyword (pred 'wb') — reaches the setter below",
+                          'wheelbase_lengths': 'varied: setter op p_wb (it assigns the dead attribute _wheelbase_lenghts; the cache is dropped)',
+                          'occupancy_at_time_step': 'query: q_pocc, and through obstacle.occupancy_at_time',
+                          'translate_rotate': 'varied: op p_tr; through obstacle / scenario op tr',
+                          'final_time_step': 'query: q_span (read-only, read before observations)',
+                          'initial_time_step': 'query: q_span',
+                          'occupancy_set?': 'query: q_span reads len(occupancy_set) (fills the cache)'},
+ 'SetBasedPrediction': {'initial_time_step': 'varied: t_init + 0..2; query q_span',
+                        'occupancy_set': 'varied: 1..4 occupancies, int steps or a closed Interval, sorted or shuffled (g_occs); setter op p_occs '
+                                         "'setter'",
+                        'occupancy_at_time_step': 'query: q_pocc, obstacle.occupancy_at_time',
+                        'translate_rotate': 'varied: op p_tr, obstacle / scenario op tr',
+                        'final_time_step': 'query: q_span (may raise for mixed int / Interval steps — compared as raised)'},
+ 'Occupancy': {'time_step': "varied: int or Interval (g_occs); setter op p_occs 'time' on an occupancy a set-based prediction holds",
+               'shape': "varied: g_shape; setter op p_occs 'shape'",
+               'translate_rotate': "varied: op p_occs 'tr' on a held occupancy (nothing is cached for set-based predictions)",
+               'draw': 'n/a: rendering (C19)'},
+ 'Trajectory': {'initial_time_step': 'outside: the setter yields a trajectory the public constructor rejects (state_list[0].time_step != '
+                                     "initial_time_step), 'freshly constructed' is undefined; as ctor argument varied with the prediction",
+                'state_list': 'varied: see TrajectoryPrediction.trajectory',
+                'append_state': 'varied: op t_app on the held trajectory, next step or a gap (known finding); failing variant fail/t_app_past',
+                'translate_rotate': 'varied: op t_tr on the held trajectory (known finding)',
+                'check_state_list': 'n/a: validation helper called by the constructor',
+                'resample_continuous_time_state_list': 'n/a: classmethod building a new trajectory',
+                'state_at_time_step': 'query: behind obstacle.state_at_time (q_state)',
+                'states_in_time_interval': 'fixed: uncached loop over state_at_time_step',
+                'final_state': 'query: read by the harness for t_app',
+                'draw': 'n/a: rendering (C19)'},
+ 'StaticObstacle': {'obstacle_id': "varied: 7 / 0 / 10**6 ('oid'); the setter only warns (immutable)",
+                    'obstacle_type': "varied: all ObstacleType members ('otype'); the setter only warns",
+                    'obstacle_role': 'fixed: set by the subclass constructor; the setter only warns',
+                    'obstacle_shape': 'varied: g_shape; setter op set_shape (immutable: warning only)',
+                    'initial_state': 'varied: g_state; setter op set_init with a new object or the same object edited in place; failing variant '
+                                     'fail/set_init_type',
+                    'initial_center_lanelet_ids': "varied: None / a set ('cen'); setter op set_meta",
+                    'initial_shape_lanelet_ids': "varied: None / a set ('shp'); setter op set_meta",
+                    'initial_signal_state': "varied: None / SignalState ('sig'); setter op set_meta",
+                    'signal_series': "varied: None / a list at construction ('series'); not read by any query of the property",
+                    'occupancy_at_time': 'query: q_occ (also Scenario.occupancies_at_time_step)',
+                    'state_at_time': 'query: q_state (also Scenario.obstacle_states_at_time_step)',
+                    'signal_state_at_time_step': 'fixed: reads signal_series / initial_signal_state directly, not a query of the property',
+                    'translate_rotate': 'varied: op tr (obstacle or scenario level); failing variant fail/tr_angle',
+                    'draw': 'n/a: rendering (C19)'},
+ 'DynamicObstacle': {'prediction': 'varied: None / TrajectoryPrediction / SetBasedPrediction; setter and update_prediction op set_pred (also '
+                                   'pre-queried objects); failing variant fail/set_pred_type',
+                     'initial_meta_information_state': 'fixed: not read by any query of the property, not touched by any mutator modelled',
+                     'meta_information_series': 'fixed: as above',
+                     'external_dataset_id': 'fixed: as above',
+                     'history': "varied: 0..4 states handed to the constructor ('hist0'), also longer than later bounds",
+                     'signal_history': "varied: with 'hist0' (equal length; unequal lengths are outside the property's 'all history lists of equal "
+                                       "length' premise)",
+                     'center_lanelet_ids_history': "varied: with 'hist0'",
+                     'shape_lanelet_ids_history': "varied: with 'hist0'",
+                     'kwargs': "varied: wheelbase_lengths keyword with a one-shape ShapeGroup ('owb'); with more shapes the InitialState has no "
+                               'hitch_angle (outside)',
+                     'update_initial_state': 'varied: op update, bounds 1..6 / default / lowered / non-positive (raises, history goes on); a '
+                                             'non-InitialState argument raises AFTER appending to the histories — not generated (ASSUMPTIONS)',
+                     'update_prediction': "varied: op set_pred via 'update_prediction'"},
+ 'Lanelet': {'left_vertices': 'varied: 2..6 vertices, straight / bent / tapered, 2-D / 3-D, float / int arrays (g_lanelet); the setter is outside '
+                              '(not a listed mutator; documented in the code as invalidating)',
+             'center_vertices': 'varied: as left_vertices; setter outside',
+             'right_vertices': 'varied: as left_vertices; setter outside',
+             'lanelet_id': 'varied: 1..n; setter fixed (ids are C09)',
+             'stop_line': "varied: None / a StopLine ('stop'): translate_rotate and convert_to_2d handle it before the polygon is rebuilt",
+             'distance': 'query: q_dist; the setter overwrites the cache itself (outside)',
+             'inner_distance': 'query: q_inner',
+             'polygon': 'query: q_poly',
+             'translate_rotate': 'varied: op tr (free lanelet), l_tr (held lanelet, known finding); raises on 3-D vertices, history goes on',
+             'convert_to_2d': 'varied: op to2d (free), l_to2d (held)',
+             'convert_to_polygon': "query: q_poly 'convert'",
+             'contains_points': "query: q_poly 'contains'",
+             'interpolate_position': "query: q_dist 'interp' (walks and fills the distance cache)",
+             'orientation_by_position': 'fixed: reads the vertex arrays directly (behind find_most_likely_lanelet_by_state)',
+             'get_obstacles': 'fixed: reads _polygon like contains_points; obstacle assignment is C07',
+             'merge_lanelets': 'n/a: classmethod building a new lanelet',
+             'predecessor': 'fixed: predecessor / successor / adjacency / types / users / signs / lights / areas / obstacle registries are not read '
+                            'by polygon, distances or the index (C09/C10/C07)',
+             'successor': 'fixed: predecessor / successor / adjacency / types / users / signs / lights / areas / obstacle registries are not read by '
+                          'polygon, distances or the index (C09/C10/C07)',
+             'adjacent_left': 'fixed: predecessor / successor / adjacency / types / users / signs / lights / areas / obstacle registries are not '
+                              'read by polygon, distances or the index (C09/C10/C07)',
+             'adjacent_left_same_direction': 'fixed: predecessor / successor / adjacency / types / users / signs / lights / areas / obstacle '
+                                             'registries are not read by polygon, distances or the index (C09/C10/C07)',
+             'adjacent_right': 'fixed: predecessor / successor / adjacency / types / users / signs / lights / areas / obstacle registries are not '
+                               'read by polygon, distances or the index (C09/C10/C07)',
+             'adjacent_right_same_direction': 'fixed: predecessor / successor / adjacency / types / users / signs / lights / areas / obstacle '
+                                              'registries are not read by polygon, distances or the index (C09/C10/C07)',
+             'line_marking_left_vertices': 'fixed: predecessor / successor / adjacency / types / users / signs / lights / areas / obstacle '
+                                           'registries are not read by polygon, distances or the index (C09/C10/C07)',
+             'line_marking_right_vertices': 'fixed: predecessor / successor / adjacency / types / users / signs / lights / areas / obstacle '
+                                            'registries are not read by polygon, distances or the index (C09/C10/C07)',
+             'lanelet_type': 'fixed: predecessor / successor / adjacency / types / users / signs / lights / areas / obstacle registries are not read '
+                             'by polygon, distances or the index (C09/C10/C07)',
+             'user_one_way': 'fixed: predecessor / successor / adjacency / types / users / signs / lights / areas / obstacle registries are not read '
+                             'by polygon, distances or the index (C09/C10/C07)',
+             'user_bidirectional': 'fixed: predecessor / successor / adjacency / types / users / signs / lights / areas / obstacle registries are '
+                                   'not read by polygon, distances or the index (C09/C10/C07)',
+             'traffic_signs': 'fixed: predecessor / successor / adjacency / types / users / signs / lights / areas / obstacle registries are not '
+                              'read by polygon, distances or the index (C09/C10/C07)',
+             'traffic_lights': 'fixed: predecessor / successor / adjacency / types / users / signs / lights / areas / obstacle registries are not '
+                               'read by polygon, distances or the index (C09/C10/C07)',
+             'adjacent_areas': 'fixed: predecessor / successor / adjacency / types / users / signs / lights / areas / obstacle registries are not '
+                               'read by polygon, distances or the index (C09/C10/C07)',
+             'adj_left': 'fixed: predecessor / successor / adjacency / types / users / signs / lights / areas / obstacle registries are not read by '
+                         'polygon, distances or the index (C09/C10/C07)',
+             'adj_left_same_direction': 'fixed: predecessor / successor / adjacency / types / users / signs / lights / areas / obstacle registries '
+                                        'are not read by polygon, distances or the index (C09/C10/C07)',
+             'adj_right': 'fixed: predecessor / successor / adjacency / types / users / signs / lights / areas / obstacle registries are not read by '
+                          'polygon, distances or the index (C09/C10/C07)',
+             'adj_right_same_direction': 'fixed: predecessor / successor / adjacency / types / users / signs / lights / areas / obstacle registries '
+                                         'are not read by polygon, distances or the index (C09/C10/C07)',
+             'dynamic_obstacles_on_lanelet': 'fixed: predecessor / successor / adjacency / types / users / signs / lights / areas / obstacle '
+                                             'registries are not read by polygon, distances or the index (C09/C10/C07)',
+             'static_obstacles_on_lanelet': 'fixed: predecessor / successor / adjacency / types / users / signs / lights / areas / obstacle '
+                                            'registries are not read by polygon, distances or the index (C09/C10/C07)',
+             'add_adjacent_area_to_lanelet': 'fixed: predecessor / successor / adjacency / types / users / signs / lights / areas / obstacle '
+                                             'registries are not read by polygon, distances or the index (C09/C10/C07)',
+             'add_dynamic_obstacle_to_lanelet': 'fixed: predecessor / successor / adjacency / types / users / signs / lights / areas / obstacle '
+                                                'registries are not read by polygon, distances or the index (C09/C10/C07)',
+             'add_predecessor': 'fixed: predecessor / successor / adjacency / types / users / signs / lights / areas / obstacle registries are not '
+                                'read by polygon, distances or the index (C09/C10/C07)',
+             'add_static_obstacle_to_lanelet': 'fixed: predecessor / successor / adjacency / types / users / signs / lights / areas / obstacle '
+                                               'registries are not read by polygon, distances or the index (C09/C10/C07)',
+             'add_successor': 'fixed: predecessor / successor / adjacency / types / users / signs / lights / areas / obstacle registries are not '
+                              'read by polygon, distances or the index (C09/C10/C07)',
+             'add_traffic_light_to_lanelet': 'fixed: predecessor / successor / adjacency / types / users / signs / lights / areas / obstacle '
+                                             'registries are not read by polygon, distances or the index (C09/C10/C07)',
+             'add_traffic_sign_to_lanelet': 'fixed: predecessor / successor / adjacency / types / users / signs / lights / areas / obstacle '
+                                            'registries are not read by polygon, distances or the index (C09/C10/C07)',
+             'all_lanelets_by_merging_predecessors_from_lanelet': 'fixed: predecessor / successor / adjacency / types / users / signs / lights / '
+                                                                  'areas / obstacle registries are not read by polygon, distances or the index '
+                                                                  '(C09/C10/C07)',
+             'all_lanelets_by_merging_successors_from_lanelet': 'fixed: predecessor / successor / adjacency / types / users / signs / lights / areas '
+                                                                '/ obstacle registries are not read by polygon, distances or the index (C09/C10/C07)',
+             'dynamic_obstacle_by_time_step': 'fixed: predecessor / successor / adjacency / types / users / signs / lights / areas / obstacle '
+                                              'registries are not read by polygon, distances or the index (C09/C10/C07)',
+             'find_lanelet_predecessors_in_range': 'fixed: predecessor / successor / adjacency / types / users / signs / lights / areas / obstacle '
+                                                   'registries are not read by polygon, distances or the index (C09/C10/C07)',
+             'find_lanelet_successors_in_range': 'fixed: predecessor / successor / adjacency / types / users / signs / lights / areas / obstacle '
+                                                 'registries are not read by polygon, distances or the index (C09/C10/C07)',
+             'remove_predecessor': 'fixed: predecessor / successor / adjacency / types / users / signs / lights / areas / obstacle registries are '
+                                   'not read by polygon, distances or the index (C09/C10/C07)',
+             'remove_successor': 'fixed: predecessor / successor / adjacency / types / users / signs / lights / areas / obstacle registries are not '
+                                 'read by polygon, distances or the index (C09/C10/C07)'},
+ 'LaneletNetwork': {'information': 'fixed: map meta data',
+                    'add_lanelet': 'varied: op add, rtree True / False, duplicate id, through Scenario.add_objects; failing variant fail/add_type',
+                    'add_lanelets_from_network': 'varied: op add_from incl. a refused lanelet',
+                    'remove_lanelet': 'varied: op remove, rtree True / False, unknown id, through Scenario.remove_lanelet single and list form '
+                                      '(remove_many)',
+                    'translate_rotate': 'varied: op tr (network / scenario); raises half way on a 3-D lanelet, history goes on; failing variants '
+                                        'fail/tr_angle, fail/tr_vector',
+                    'convert_to_2d': 'varied: op to2d (network / scenario)',
+                    'create_from_lanelet_list': "varied: initial network, cleanup_ids True / False; also the oracle's rebuild",
+                    'create_from_lanelet_network': "varied: op create_from (continue on the result); with a region: query q_find 'subnet'",
+                    'find_lanelet_by_position': "query: q_find 'pos'",
+                    'find_lanelet_by_shape': "query: q_find 'circle' / 'rect'",
+                    'find_most_likely_lanelet_by_state': "query: q_find 'state'",
+                    'find_lanelet_by_id': 'query: used to reach held lanelets',
+                    'lanelets': 'query: read by the oracle',
+                    'lanelet_polygons': 'fixed: the list of lanelet.polygon',
+                    'filter_obstacles_in_network': 'fixed: wrapper of find_lanelet_by_shape (C07)',
+                    'map_obstacles_to_lanelets': 'fixed: wrapper of find_lanelet_by_shape (C07)',
+                    'lanelets_in_proximity': 'fixed: reads the vertex arrays directly',
+                    '__deepcopy__': 'varied: ops deepcopy / pickle (network or whole scenario)',
+                    '__getstate__': 'varied: ops deepcopy / pickle (network or whole scenario)',
+                    '__setstate__': 'varied: ops deepcopy / pickle (network or whole scenario)',
+                    'add_area': 'fixed: traffic signs / lights / areas / intersections and their add / remove / find / cleanup methods do not touch '
+                                'the lanelet index (C09/C10)',
+                    'add_intersection': 'fixed: traffic signs / lights / areas / intersections and their add / remove / find / cleanup methods do '
+                                        'not touch the lanelet index (C09/C10)',
+                    'add_traffic_light': 'fixed: traffic signs / lights / areas / intersections and their add / remove / find / cleanup methods do '
+                                         'not touch the lanelet index (C09/C10)',
+                    'add_traffic_sign': 'fixed: traffic signs / lights / areas / intersections and their add / remove / find / cleanup methods do '
+                                        'not touch the lanelet index (C09/C10)',
+                    'cleanup_lanelet_references': 'fixed: traffic signs / lights / areas / intersections and their add / remove / find / cleanup '
+                                                  'methods do not touch the lanelet index (C09/C10)',
+                    'cleanup_traffic_light_references': 'fixed: traffic signs / lights / areas / intersections and their add / remove / find / '
+                                                        'cleanup methods do not touch the lanelet index (C09/C10)',
+                    'cleanup_traffic_sign_references': 'fixed: traffic signs / lights / areas / intersections and their add / remove / find / '
+                                                       'cleanup methods do not touch the lanelet index (C09/C10)',
+                    'draw': 'fixed: traffic signs / lights / areas / intersections and their add / remove / find / cleanup methods do not touch the '
+                            'lanelet index (C09/C10)',
+                    'find_area_by_id': 'fixed: traffic signs / lights / areas / intersections and their add / remove / find / cleanup methods do not '
+                                       'touch the lanelet index (C09/C10)',
+                    'find_intersection_by_id': 'fixed: traffic signs / lights / areas / intersections and their add / remove / find / cleanup '
+                                               'methods do not touch the lanelet index (C09/C10)',
+                    'find_traffic_light_by_id': 'fixed: traffic signs / lights / areas / intersections and their add / remove / find / cleanup '
+                                                'methods do not touch the lanelet index (C09/C10)',
+                    'find_traffic_sign_by_id': 'fixed: traffic signs / lights / areas / intersections and their add / remove / find / cleanup '
+                                               'methods do not touch the lanelet index (C09/C10)',
+                    'get_traffic_lights_referenced_lanelets': 'fixed: traffic signs / lights / areas / intersections and their add / remove / find / '
+                                                              'cleanup methods do not touch the lanelet index (C09/C10)',
+                    'get_traffic_sign_referenced_lanelets': 'fixed: traffic signs / lights / areas / intersections and their add / remove / find / '
+                                                            'cleanup methods do not touch the lanelet index (C09/C10)',
+                    'remove_area': 'fixed: traffic signs / lights / areas / intersections and their add / remove / find / cleanup methods do not '
+                                   'touch the lanelet index (C09/C10)',
+                    'remove_intersection': 'fixed: traffic signs / lights / areas / intersections and their add / remove / find / cleanup methods do '
+                                           'not touch the lanelet index (C09/C10)',
+                    'remove_traffic_light': 'fixed: traffic signs / lights / areas / intersections and their add / remove / find / cleanup methods '
+                                            'do not touch the lanelet index (C09/C10)',
+                    'remove_traffic_sign': 'fixed: traffic signs / lights / areas / intersections and their add / remove / find / cleanup methods do '
+                                           'not touch the lanelet index (C09/C10)',
+                    'areas': 'fixed: traffic signs / lights / areas / intersections and their add / remove / find / cleanup methods do not touch the '
+                             'lanelet index (C09/C10)',
+                    'intersections': 'fixed: traffic signs / lights / areas / intersections and their add / remove / find / cleanup methods do not '
+                                     'touch the lanelet index (C09/C10)',
+                    'map_inc_lanelets_to_intersections': 'fixed: traffic signs / lights / areas / intersections and their add / remove / find / '
+                                                         'cleanup methods do not touch the lanelet index (C09/C10)',
+                    'traffic_lights': 'fixed: traffic signs / lights / areas / intersections and their add / remove / find / cleanup methods do not '
+                                      'touch the lanelet index (C09/C10)',
+                    'traffic_signs': 'fixed: traffic signs / lights / areas / intersections and their add / remove / find / cleanup methods do not '
+                                     'touch the lanelet index (C09/C10)'},
+ 'TrafficLightCycle': {'cycle_elements': 'varied: 1..5 elements; setter op set_es with a new list, the same list edited in place, `+=`; list methods '
+                                         'on the returned list op list_edit (known finding); None / empty are malformed (get_state raises)',
+                       'time_offset': 'varied: 0..40; setter op set_off',
+                       'active': 'varied: True / False at construction; setter op set_active',
+                       'get_state_at_time_step': 'query: q (around the phase boundaries of old and new cycle)',
+                       'cycle_init_timesteps': 'query: the cached array behind get_state_at_time_step'},
+ 'TrafficLightCycleElement': {'state': 'varied: all TrafficLightState members; setter op set_state on a held element',
+                              'duration': 'varied: 1..30; setter op set_dur on a held element'},
+ 'TrafficLight': {'traffic_light_cycle': "varied: optional wrapper ('light'); setter op replace",
+                  'active': "varied: True / False at construction ('lactive'); not read by get_state_at_time_step",
+                  'get_state_at_time_step': 'query: q through the light',
+                  'traffic_light_id': 'fixed: id, position, color, direction, shape, translate_rotate, convert_to_2d do not reach the cycle',
+                  'position': 'fixed: id, position, color, direction, shape, translate_rotate, convert_to_2d do not reach the cycle',
+                  'color': 'fixed: id, position, color, direction, shape, translate_rotate, convert_to_2d do not reach the cycle',
+                  'direction': 'fixed: id, position, color, direction, shape, translate_rotate, convert_to_2d do not reach the cycle',
+                  'shape': 'fixed: id, position, color, direction, shape, translate_rotate, convert_to_2d do not reach the cycle',
+                  'convert_to_2d': 'fixed: id, position, color, direction, shape, translate_rotate, convert_to_2d do not reach the cycle',
+                  'draw': 'fixed: id, position, color, direction, shape, translate_rotate, convert_to_2d do not reach the cycle',
+                  'translate_rotate': 'fixed: id, position, color, direction, shape, translate_rotate, convert_to_2d do not reach the cycle'},
+ 'Scenario': {'translate_rotate': "varied: op tr via 'scenario' (obstacle and network families)",
+              'convert_to_2d': "varied: op to2d via 'scenario'",
+              'add_objects': "varied: obstacle, lanelet, lanelet network (op replace 'add_objects')",
+              'remove_lanelet': 'varied: single and list form',
+              'replace_lanelet_network': 'varied: op replace',
+              'erase_lanelet_network': 'fixed: called by replace_lanelet_network',
+              'occupancies_at_time_step': "query: q_occ via 'scenario'",
+              'obstacle_states_at_time_step': "query: q_state via 'scenario'",
+              'lanelet_network': 'query: read by the harness',
+              'dt': 'fixed: dt, ids, meta data, obstacle lookups by id / role / position, remove_obstacle, traffic sign / light / intersection '
+                    'removal, assign_obstacles_to_lanelets (C07/C09/C10) do not reach the caches of C11',
+              'scenario_id': 'fixed: dt, ids, meta data, obstacle lookups by id / role / position, remove_obstacle, traffic sign / light / '
+                             'intersection removal, assign_obstacles_to_lanelets (C07/C09/C10) do not reach the caches of C11',
+              'author': 'fixed: dt, ids, meta data, obstacle lookups by id / role / position, remove_obstacle, traffic sign / light / intersection '
+                        'removal, assign_obstacles_to_lanelets (C07/C09/C10) do not reach the caches of C11',
+              'tags': 'fixed: dt, ids, meta data, obstacle lookups by id / role / position, remove_obstacle, traffic sign / light / intersection '
+                      'removal, assign_obstacles_to_lanelets (C07/C09/C10) do not reach the caches of C11',
+              'affiliation': 'fixed: dt, ids, meta data, obstacle lookups by id / role / position, remove_obstacle, traffic sign / light / '
+                             'intersection removal, assign_obstacles_to_lanelets (C07/C09/C10) do not reach the caches of C11',
+              'source': 'fixed: dt, ids, meta data, obstacle lookups by id / role / position, remove_obstacle, traffic sign / light / intersection '
+                        'removal, assign_obstacles_to_lanelets (C07/C09/C10) do not reach the caches of C11',
+              'location': 'fixed: dt, ids, meta data, obstacle lookups by id / role / position, remove_obstacle, traffic sign / light / intersection '
+                          'removal, assign_obstacles_to_lanelets (C07/C09/C10) do not reach the caches of C11',
+              'assign_obstacles_to_lanelets': 'fixed: dt, ids, meta data, obstacle lookups by id / role / position, remove_obstacle, traffic sign / '
+                                              'light / intersection removal, assign_obstacles_to_lanelets (C07/C09/C10) do not reach the caches of '
+                                              'C11',
+              'draw': 'fixed: dt, ids, meta data, obstacle lookups by id / role / position, remove_obstacle, traffic sign / light / intersection '
+                      'removal, assign_obstacles_to_lanelets (C07/C09/C10) do not reach the caches of C11',
+              'generate_object_id': 'fixed: dt, ids, meta data, obstacle lookups by id / role / position, remove_obstacle, traffic sign / light / '
+                                    'intersection removal, assign_obstacles_to_lanelets (C07/C09/C10) do not reach the caches of C11',
+              'obstacle_by_id': 'fixed: dt, ids, meta data, obstacle lookups by id / role / position, remove_obstacle, traffic sign / light / '
+                                'intersection removal, assign_obstacles_to_lanelets (C07/C09/C10) do not reach the caches of C11',
+              'obstacles_by_position_intervals': 'fixed: dt, ids, meta data, obstacle lookups by id / role / position, remove_obstacle, traffic sign '
+                                                 '/ light / intersection removal, assign_obstacles_to_lanelets (C07/C09/C10) do not reach the caches '
+                                                 'of C11',
+              'obstacles_by_role_and_type': 'fixed: dt, ids, meta data, obstacle lookups by id / role / position, remove_obstacle, traffic sign / '
+                                            'light / intersection removal, assign_obstacles_to_lanelets (C07/C09/C10) do not reach the caches of C11',
+              'remove_hanging_lanelet_members': 'fixed: dt, ids, meta data, obstacle lookups by id / role / position, remove_obstacle, traffic sign '
+                                                '/ light / intersection removal, assign_obstacles_to_lanelets (C07/C09/C10) do not reach the caches '
+                                                'of C11',
+              'remove_intersection': 'fixed: dt, ids, meta data, obstacle lookups by id / role / position, remove_obstacle, traffic sign / light / '
+                                     'intersection removal, assign_obstacles_to_lanelets (C07/C09/C10) do not reach the caches of C11',
+              'remove_obstacle': 'fixed: dt, ids, meta data, obstacle lookups by id / role / position, remove_obstacle, traffic sign / light / '
+                                 'intersection removal, assign_obstacles_to_lanelets (C07/C09/C10) do not reach the caches of C11',
+              'remove_traffic_light': 'fixed: dt, ids, meta data, obstacle lookups by id / role / position, remove_obstacle, traffic sign / light / '
+                                      'intersection removal, assign_obstacles_to_lanelets (C07/C09/C10) do not reach the caches of C11',
+              'remove_traffic_sign': 'fixed: dt, ids, meta data, obstacle lookups by id / role / position, remove_obstacle, traffic sign / light / '
+                                     'intersection removal, assign_obstacles_to_lanelets (C07/C09/C10) do not reach the caches of C11',
+              'dynamic_obstacles': 'fixed: dt, ids, meta data, obstacle lookups by id / role / position, remove_obstacle, traffic sign / light / '
+                                   'intersection removal, assign_obstacles_to_lanelets (C07/C09/C10) do not reach the caches of C11',
+              'environment_obstacle': 'fixed: dt, ids, meta data, obstacle lookups by id / role / position, remove_obstacle, traffic sign / light / '
+                                      'intersection removal, assign_obstacles_to_lanelets (C07/C09/C10) do not reach the caches of C11',
+              'obstacles': 'fixed: dt, ids, meta data, obstacle lookups by id / role / position, remove_obstacle, traffic sign / light / '
+                           'intersection removal, assign_obstacles_to_lanelets (C07/C09/C10) do not reach the caches of C11',
+              'phantom_obstacle': 'fixed: dt, ids, meta data, obstacle lookups by id / role / position, remove_obstacle, traffic sign / light / '
+                                  'intersection removal, assign_obstacles_to_lanelets (C07/C09/C10) do not reach the caches of C11',
+              'static_obstacles': 'fixed: dt, ids, meta data, obstacle lookups by id / role / position, remove_obstacle, traffic sign / light / '
+                                  'intersection removal, assign_obstacles_to_lanelets (C07/C09/C10) do not reach the caches of C11'}}
+
+
+def _surface(cls):
+    import inspect
+    names = {p for p in inspect.signature(cls.__init__).parameters if p != "self"}
+    for name in dir(cls):
+        if name.startswith("_"):
+            continue
+        a = inspect.getattr_static(cls, name)
+        names.add(name + "?" if not (isinstance(a, property) or callable(a) or isinstance(a, (classmethod, staticmethod))) else name)
+    names |= {n for n in ("__deepcopy__", "__getstate__", "__setstate__") if n in cls.__dict__}
+    return names
+
+
+def check_dimensions():
+    from commonroad.prediction.prediction import Occupancy, SetBasedPrediction, TrajectoryPrediction
+    from commonroad.scenario.lanelet import Lanelet, LaneletNetwork
+    from commonroad.scenario.obstacle import DynamicObstacle, StaticObstacle
+    from commonroad.scenario.scenario import Scenario
+    from commonroad.scenario.traffic_light import TrafficLight, TrafficLightCycle, TrafficLightCycleElement
+    from commonroad.scenario.trajectory import Trajectory
+    classes = {c.__name__: c for c in (TrajectoryPrediction, SetBasedPrediction, Occupancy, Trajectory, StaticObstacle, DynamicObstacle, Lanelet,
+                                        LaneletNetwork, TrafficLightCycle, TrafficLightCycleElement, TrafficLight, Scenario)}
+    problems = []
+    for name, cls in classes.items():
+        table = dict(DIMENSIONS[name])
+        if name == "DynamicObstacle":
+            table = dict(DIMENSIONS["StaticObstacle"], **table)       # the Obstacle part is shared
+        have = _surface(cls)
+        for n in sorted(have - set(table)):
+            problems.append(f"{name}.{n}: in the code, not in DIMENSIONS (decide how the generator treats it)")
+        for n in sorted(set(table) - have):
+            problems.append(f"{name}.{n}: in DIMENSIONS, not in the code any more")
+        for n, d in table.items():
+            if d.split(":")[0] not in ("varied", "query", "fixed", "outside", "n/a"):
+                problems.append(f"{name}.{n}: decision '{d[:30]}' has no known category")
+    if problems:
+        raise InfraError("harness/c11.py DIMENSIONS and the commonroad classes are out of step:\n  " + "\n  ".join(problems))
 
 
 # ------------------------------------------------------------------------------------------------ whom to blame
@@ -328,7 +686,10 @@ def g_motion_nz(r):
     return t, a
 
 
-def g_shape(r):
+def g_shape(r, group=True):
+    if group and r.random() < 0.08:
+        # a ShapeGroup (e.g. truck + trailer drawn as one obstacle shape)
+        return {"k": "group", "s": [g_shape(r, False), dict(g_shape(r, False), c=[-3.5, 0.0]) if r.random() < 0.7 else g_shape(r, False)]}
     k = r.choice(["rect", "rect", "circle", "poly"])
     # a third of the rectangles / circles have their reference point off the centre (e.g. at the rear axle) and a local orientation
     off = {"c": [r.choice([1.25, -0.5, 2.0]), r.choice([0.0, 0.75])], "o": r.choice([0.0, 0.0, 0.4])} if r.random() < 0.33 else {}
@@ -336,13 +697,17 @@ def g_shape(r):
         return dict({"k": "rect", "l": r.choice([4.5, 2.0, 12.0, r.randint(8, 80) / 8.0]), "w": r.choice([2.0, 1.0, r.randint(4, 24) / 8.0])}, **off)
     if k == "circle":
         return dict({"k": "circle", "r": r.choice([0.5, 1.0, r.randint(2, 24) / 8.0])}, **({"c": off["c"]} if off else {}))
+    if k == "poly" and r.random() < 0.3:
+        return {"k": "poly", "v": [[0.0, -1.0], [4.0, -1.0], [4.0, 1.0], [0.0, 1.0]]}       # reference point on an edge (rear bumper)
     s = r.choice([1.0, 2.0, 0.5])
     return {"k": "poly", "v": [[-2 * s, -s], [2 * s, -s], [2.5 * s, 0.0], [2 * s, s], [-2 * s, s]]}
 
 
 def b_shape(sp):
     import numpy as np
-    from commonroad.geometry.shape import Circle, Polygon, Rectangle
+    from commonroad.geometry.shape import Circle, Polygon, Rectangle, ShapeGroup
+    if sp["k"] == "group":
+        return ShapeGroup([b_shape(x) for x in sp["s"]])
     if sp["k"] == "rect":
         return Rectangle(sp["l"], sp["w"], np.array(sp.get("c", [0.0, 0.0]), dtype=float), sp.get("o", 0.0))
     if sp["k"] == "circle":
@@ -368,40 +733,101 @@ def g_traj(r, t0):
     sts = []
     for i in range(n):
         sts.append([x + 1.5 * i * math.cos(o), y + 1.5 * i * math.sin(o), o + 0.05 * i, 1.5 + 0.125 * i])
-    return {"t0": t0, "states": sts}
+    sp = {"t0": t0, "states": sts, "cls": r.choice(["ks", "ks", "ks", "pm", "unc"])}
+    if n >= 3 and r.random() < 0.12:
+        # time steps with a gap (the constructor checks only the first one)
+        steps, t = [], t0
+        for i in range(n):
+            steps.append(t)
+            t += 2 if i == n // 2 else 1
+        sp["steps"] = steps
+    return sp
+
+
+def traj_steps(sp):
+    return list(sp.get("steps") or [sp["t0"] + i for i in range(len(sp["states"]))])
+
+
+def b_tstate(cls, t, s):
+    """One trajectory state: kinematic single-track, point-mass (velocity vector, no stored orientation), or with an uncertain
+    position (a shape instead of a point)."""
+    import numpy as np
+    from commonroad.geometry.shape import Circle, Rectangle
+    from commonroad.scenario.state import KSState, PMState
+    pos = np.array([s[0], s[1]], dtype=float)
+    if cls == "pm":
+        return PMState(time_step=t, position=pos, velocity=s[3] * math.cos(s[2]), velocity_y=s[3] * math.sin(s[2]))
+    if cls == "unc":
+        shape = Circle(0.5, pos) if int(abs(s[0] * 4)) % 2 == 0 else Rectangle(1.0, 0.5, pos, 0.0)
+        return KSState(time_step=t, position=shape, orientation=s[2], velocity=s[3])
+    return KSState(time_step=t, position=pos, orientation=s[2], velocity=s[3])
 
 
 def b_traj(sp):
-    import numpy as np
-    from commonroad.scenario.state import KSState
     from commonroad.scenario.trajectory import Trajectory
-    return Trajectory(sp["t0"], [KSState(time_step=sp["t0"] + i, position=np.array([s[0], s[1]], dtype=float), orientation=s[2], velocity=s[3])
-                                 for i, s in enumerate(sp["states"])])
+    return Trajectory(sp["t0"], [b_tstate(sp.get("cls", "ks"), t, s) for t, s in zip(traj_steps(sp), sp["states"])])
+
+
+def occ_ivs(occ, t0):
+    """time steps / closed time intervals of the occupancies of a set-based prediction spec, in list order"""
+    out = []
+    for i, o in enumerate(occ):
+        t = o.get("t", t0 + i)
+        out.append([t, t] if isinstance(t, int) else [t[0], t[1]])
+    return out
+
+
+def g_occs(r, t0):
+    n = r.choice([1, 2, 4])
+    occ = [{"shape": g_shape(r, False), "x": r.randint(-80, 80) / 4.0, "y": r.randint(-40, 40) / 4.0, "t": t0 + i} for i in range(n)]
+    if r.random() < 0.3:
+        occ[-1]["t"] = [t0 + n - 1, t0 + n + 1]          # the last occupancy holds for a time interval
+    if n > 1 and r.random() < 0.3:
+        r.shuffle(occ)                                   # not sorted by time
+    return occ
 
 
 def g_pred(r, t_init):
-    k = r.choice(["traj", "traj", "traj", "setb", None])
+    k = r.choice(["traj", "traj", "traj", "setb", "setb", None])
     if k is None:
         return None
     t0 = t_init + r.choice([1, 1, 1, 2, 0])
     if k == "traj":
-        return {"k": "traj", "shape": g_shape(r), "traj": g_traj(r, t0), "queried": r.random() < 0.3}
-    n = r.choice([1, 2, 4])
-    return {"k": "setb", "t0": t0, "occ": [{"shape": g_shape(r), "x": r.randint(-80, 80) / 4.0, "y": r.randint(-40, 40) / 4.0} for _ in range(n)]}
+        sp = {"k": "traj", "shape": g_shape(r), "traj": g_traj(r, t0), "queried": r.random() < 0.3}
+        if r.random() < 0.25:
+            sp["asg"] = True           # lanelet assignments given to the constructor
+        if r.random() < 0.1:
+            sp["wb"] = [2.5, 3.0]      # the `wheelbase_lengths` keyword of the constructor
+        return sp
+    return {"k": "setb", "t0": t0, "occ": g_occs(r, t0)}
+
+
+def b_occs(sp_occ, t0):
+    import numpy as np
+    from commonroad.common.util import Interval
+    from commonroad.prediction.prediction import Occupancy
+    out = []
+    for i, o in enumerate(sp_occ):
+        t = o.get("t", t0 + i)
+        out.append(Occupancy(t if isinstance(t, int) else Interval(t[0], t[1]),
+                             b_shape(o["shape"]).translate_rotate(np.array([o["x"], o["y"]], dtype=float), 0.0)))
+    return out
 
 
 def b_pred(sp):
-    import numpy as np
-    from commonroad.prediction.prediction import Occupancy, SetBasedPrediction, TrajectoryPrediction
+    from commonroad.prediction.prediction import SetBasedPrediction, TrajectoryPrediction
     if sp is None:
         return None
     if sp["k"] == "traj":
-        p = TrajectoryPrediction(b_traj(sp["traj"]), b_shape(sp["shape"]))
+        kw = {}
+        if sp.get("wb"):
+            kw["wheelbase_lengths"] = list(sp["wb"])
+        asg = ({sp["traj"]["t0"]: {1, 2}}, {sp["traj"]["t0"]: {1}}) if sp.get("asg") else (None, None)
+        p = TrajectoryPrediction(b_traj(sp["traj"]), b_shape(sp["shape"]), asg[0], asg[1], **kw)
         if sp.get("queried"):
             p.occupancy_at_time_step(sp["traj"]["t0"])
         return p
-    occ = [Occupancy(sp["t0"] + i, b_shape(o["shape"]).translate_rotate(np.array([o["x"], o["y"]], dtype=float), 0.0)) for i, o in enumerate(sp["occ"])]
-    return SetBasedPrediction(sp["t0"], occ)
+    return SetBasedPrediction(sp["t0"], b_occs(sp["occ"], sp["t0"]))
 
 
 def b_signal(i):
@@ -423,7 +849,16 @@ def gen_obs(ctx):
     t_init = r.choice([0, 0, 3, 10])
     case = {"fam": "obs", "dynamic": dynamic, "shape": g_shape(r), "init": g_state(r, t_init), "wrap": r.choice(["none", "none", "scenario"]),
             "sig": r.choice([0, 1, 2]), "cen": r.choice([0, 3]), "shp": r.choice([0, 4]),
-            "pred": g_pred(r, t_init) if dynamic else None, "ops": []}
+            "pred": g_pred(r, t_init) if dynamic else None, "ops": [],
+            "oid": r.choice([7, 7, 0, 10 ** 6]), "otype": r.randrange(8), "series": r.random() < 0.2}
+    if dynamic and r.random() < 0.25:
+        # the constructor is handed a history (four lists of equal length), possibly longer than the bounds used later
+        case["hist0"] = [{"st": g_state(r, t_init - 5 + i), "sig": r.choice([0, 1, 2]), "cen": r.choice([0, 5]), "shp": r.choice([0, 7])}
+                         for i in range(r.choice([1, 2, 4]))]
+    if dynamic and case["shape"]["k"] != "group" and r.random() < 0.06:
+        # the truck-trailer keyword of DynamicObstacle: a ShapeGroup of ONE shape with its wheelbase length
+        case["shape"] = {"k": "group", "s": [case["shape"]]}
+        case["owb"] = [2.5]
     # bookkeeping for generating applicable operations
     t0 = t_init
     pred = case["pred"]
@@ -434,27 +869,35 @@ def gen_obs(ctx):
         if pred is None:
             return [t0 + 1, t0 + 2]
         if pred["k"] == "traj":
-            a, n = pred["traj"]["t0"], len(pred["traj"]["states"])
-        else:
-            a, n = pred["t0"], len(pred["occ"])
-        return [a, a + n - 1, a + n, a + n // 2, t0 + 1]
+            st = traj_steps(pred["traj"])
+            gaps = [t for t in range(st[0], st[-1]) if t not in st]
+            return [st[0], st[-1], st[-1] + 1, st[len(st) // 2], t0 + 1] + gaps[:1]
+        iv = occ_ivs(pred["occ"], pred["t0"])
+        lo, hi = min(a for a, _ in iv), max(b for _, b in iv)
+        return [lo, hi, hi + 1, (lo + hi) // 2, t0 + 1]
+
+    def via(q):
+        # the scenario-level entry points of the same queries (occupancies_at_time_step / obstacle_states_at_time_step)
+        return q + ["scenario"] if (case["wrap"] == "scenario" and q[1] >= 0 and r.random() < 0.3) else q
 
     def queries():
-        qs = [["q_occ", t0]]
+        qs = [via(["q_occ", t0])]
         if dynamic:
             ts = [t for t in horizon() if t > t0] or [t0 + 1]
             t = r.choice(ts)
-            qs.append(["q_occ", t])
+            qs.append(via(["q_occ", t]))
             if r.random() < 0.5:
-                qs.append(["q_state", r.choice(ts + [t0, t0 - 1])])
+                qs.append(via(["q_state", r.choice(ts + [t0, t0 - 1])]))
             if pred is not None and r.random() < 0.6:
                 qs.append(["q_pocc", r.choice(horizon())])
+            if pred is not None and r.random() < 0.15:
+                qs.append(["q_span"])            # read-only: prediction.initial_time_step / final_time_step / len(occupancy_set)
             if r.random() < 0.4 or n_upd:
                 qs.append(["q_hist"])
         else:
-            qs.append(["q_occ", t0 + r.randint(1, 5)])
+            qs.append(via(["q_occ", t0 + r.randint(1, 5)]))
             if r.random() < 0.5:
-                qs.append(["q_state", t0 + r.randint(0, 3)])
+                qs.append(via(["q_state", t0 + r.randint(0, 3)]))
         r.shuffle(qs)
         return qs
 
@@ -486,14 +929,56 @@ def gen_obs(ctx):
         return case
     ops += queries()
     for _ in range(r.choice([1, 2, 2, 3, 4])):
-        kinds = ["tr", "tr", "set_init", "set_shape"]
+        kinds = ["tr", "tr", "set_init", "set_shape", "set_meta", "fail"]
         if dynamic:
             kinds += ["set_pred", "set_pred", "update", "update", "update"]
             if pred is not None:
                 kinds += ["p_tr", "p_tr"]
                 if pred["k"] == "traj":
-                    kinds += ["p_shape", "p_traj", "p_wb", "p_asg", "p_tr", "t_tr", "t_app"]
+                    kinds += ["p_shape", "p_traj", "p_traj", "p_wb", "p_asg", "p_tr", "t_tr", "t_app"]
+                else:
+                    kinds += ["p_occs"] * 8
         k = r.choice(kinds)
+        if k == "set_meta":
+            # the plain setters of the values update_initial_state moves into the histories
+            ops.append(["set_meta", r.choice([0, 1, 2, 3]), r.choice([0, 5, 6]), r.choice([0, 7])])
+            if dynamic and r.random() < 0.7:
+                t0 += 1
+                ops.append(["update", g_state(r, t0), r.choice([0, 1, 2]), r.choice([0, 5]), r.choice([0, 7]), bound])
+                pred, n_upd = None, n_upd + 1
+                ops.append(["q_hist"])
+            ops += queries()
+            continue
+        if k == "fail":
+            # a mutator that raises before it changes anything; the history goes on
+            fk = ["set_init_type", "tr_angle"]
+            if dynamic:
+                fk += ["set_pred_type"]
+                if pred is not None and pred["k"] == "traj":
+                    fk += ["t_app_past", "p_shape_type", "p_traj_type"]
+            ops.append(["fail", r.choice(fk)])
+            ops += queries()
+            continue
+        if k == "p_occs":
+            how = r.choice(["setter", "tr", "shape", "time"])
+            occ = [dict(o) for o in pred["occ"]]
+            i = r.randrange(len(occ))
+            if how == "setter":
+                occ = g_occs(r, pred["t0"] + r.choice([0, 0, 1]))
+                ops.append(["p_occs", "setter", occ])
+            elif how == "tr":
+                t, a = g_motion_nz(r)
+                ops.append(["p_occs", "tr", i, t, a])
+            elif how == "shape":
+                ops.append(["p_occs", "shape", i, g_shape(r, False)])
+            else:
+                iv = occ_ivs(occ, pred["t0"])[i]
+                nt = r.choice([iv[1] + 5, [iv[0], iv[1] + 2]])
+                occ[i]["t"] = nt
+                ops.append(["p_occs", "time", i, nt])
+            pred = dict(pred, occ=occ)
+            ops += queries()
+            continue
         if k == "tr":
             t, a = g_motion_nz(r)
             ops.append(["tr", t, a, "scenario" if case["wrap"] == "scenario" and r.random() < 0.6 else "obstacle"])
@@ -507,7 +992,7 @@ def gen_obs(ctx):
             pred = g_pred(r, t0)
             ops.append(["set_pred", pred, r.choice(["setter", "update_prediction"])])
         elif k == "update":
-            m = bound if r.random() < 0.8 else r.choice([1, 2, 5, None, 0, -1])
+            m = bound if r.random() < 0.75 else r.choice([1, 2, 5, None, 0, -1, 0])
             t0n = t0 + r.choice([1, 1, 2])
             ops.append(["update", g_state(r, t0n), r.choice([0, 1, 2, 3]), r.choice([0, 5, 6]), r.choice([0, 7]), m])
             if m is None or m > 0:
@@ -517,11 +1002,11 @@ def gen_obs(ctx):
             pred = dict(pred, shape=g_shape(r))        # (a copy: the dict is also part of the case / of an earlier operation)
             ops.append(["p_shape", pred["shape"]])
         elif k == "p_traj":
-            if r.random() < 0.3:
+            if r.random() < 0.5:
                 # the SAME trajectory object, moved in place and assigned back through the setter: the new primary data is the shifted copy
                 dx, dy = r.choice([4.0, -8.0, 12.5]), r.choice([0.0, 2.0, -6.0])
                 old = pred["traj"]
-                pred = dict(pred, traj={"t0": old["t0"], "states": [[st[0] + dx, st[1] + dy] + list(st[2:]) for st in old["states"]]})
+                pred = dict(pred, traj=dict(old, states=[[st[0] + dx, st[1] + dy] + list(st[2:]) for st in old["states"]]))
                 ops.append(["p_traj", pred["traj"], [dx, dy]])
             else:
                 pred = dict(pred, traj=g_traj(r, pred["traj"]["t0"] + r.choice([0, 0, 1])))
@@ -541,8 +1026,10 @@ def gen_obs(ctx):
             # … or gets one more state (prediction.trajectory.append_state)
             last = pred["traj"]["states"][-1]
             new_state = [last[0] + 1.5, last[1] + 0.5, last[2], last[3]]
-            pred = dict(pred, traj={"t0": pred["traj"]["t0"], "states": pred["traj"]["states"] + [new_state]})
-            ops.append(["t_app", new_state])
+            gap = r.choice([0, 0, 0, 2])          # append_state only asks for a LARGER time step: a gap is allowed
+            steps = traj_steps(pred["traj"])
+            pred = dict(pred, traj=dict(pred["traj"], states=pred["traj"]["states"] + [new_state], steps=steps + [steps[-1] + 1 + gap]))
+            ops.append(["t_app", new_state, gap])
         if k == "update" and pred is None and r.random() < 0.3:
             pred = {"k": "traj", "shape": g_shape(r), "traj": g_traj(r, t0 + 1), "queried": False}
             ops.append(["set_pred", pred, "update_prediction"])      # a new prediction after the update dropped the old one
@@ -578,25 +1065,30 @@ def fresh_obstacle(o):
         return StaticObstacle(o.obstacle_id, o.obstacle_type, copy.deepcopy(o.obstacle_shape), copy.deepcopy(o.initial_state),
                               copy.deepcopy(o.initial_center_lanelet_ids), copy.deepcopy(o.initial_shape_lanelet_ids),
                               copy.deepcopy(o.initial_signal_state), copy.deepcopy(o.signal_series))
+    kw = {"wheelbase_lengths": copy.deepcopy(o.wheelbase_lengths)} if hasattr(o, "wheelbase_lengths") else {}
     return DynamicObstacle(o.obstacle_id, o.obstacle_type, copy.deepcopy(o.obstacle_shape), copy.deepcopy(o.initial_state), fresh_pred(o.prediction),
                            copy.deepcopy(o.initial_center_lanelet_ids), copy.deepcopy(o.initial_shape_lanelet_ids),
                            copy.deepcopy(o.initial_signal_state), copy.deepcopy(o.signal_series),
                            history=copy.deepcopy(o.history), signal_history=copy.deepcopy(o.signal_history),
                            center_lanelet_ids_history=copy.deepcopy(o.center_lanelet_ids_history),
-                           shape_lanelet_ids_history=copy.deepcopy(o.shape_lanelet_ids_history))
+                           shape_lanelet_ids_history=copy.deepcopy(o.shape_lanelet_ids_history), **kw)
 
 
 MUT_NAMES = {"tr": "Obstacle.translate_rotate", "set_init": "Obstacle.initial_state=", "set_shape": "Obstacle.obstacle_shape=",
              "set_pred": "DynamicObstacle.prediction=", "update": "DynamicObstacle.update_initial_state",
              "p_shape": "TrajectoryPrediction.shape=", "p_traj": "TrajectoryPrediction.trajectory=",
              "p_wb": "TrajectoryPrediction.wheelbase_lengths=", "p_asg": "TrajectoryPrediction.lanelet_assignment=",
-             "p_tr": "Prediction.translate_rotate", "t_tr": "Trajectory.translate_rotate(held)", "t_app": "Trajectory.append_state(held)"}
+             "p_tr": "Prediction.translate_rotate", "t_tr": "Trajectory.translate_rotate(held)", "t_app": "Trajectory.append_state(held)",
+             "p_occs": "SetBasedPrediction.occupancy_set=", "set_meta": "Obstacle.initial_signal_state=", "fail": "a-raising-mutator"}
 NET_NAMES = {"tr": "LaneletNetwork.translate_rotate", "add": "LaneletNetwork.add_lanelet", "add_from": "LaneletNetwork.add_lanelets_from_network", "remove": "LaneletNetwork.remove_lanelet",
              "to2d": "LaneletNetwork.convert_to_2d", "deepcopy": "LaneletNetwork.deepcopy", "pickle": "LaneletNetwork.pickle",
-             "l_tr": "Lanelet.translate_rotate(member)", "l_to2d": "Lanelet.convert_to_2d(member)"}
+             "l_tr": "Lanelet.translate_rotate(member)", "l_to2d": "Lanelet.convert_to_2d(member)",
+             "create_from": "LaneletNetwork.create_from_lanelet_network", "replace": "Scenario.replace_lanelet_network",
+             "remove_many": "Scenario.remove_lanelet(list)", "fail": "a-raising-mutator"}
 LAN_NAMES = {"tr": "Lanelet.translate_rotate", "to2d": "Lanelet.convert_to_2d"}
 CYC_NAMES = {"set_es": "TrafficLightCycle.cycle_elements=", "set_off": "TrafficLightCycle.time_offset=", "set_active": "TrafficLightCycle.active=",
-             "replace": "TrafficLight.traffic_light_cycle="}
+             "replace": "TrafficLight.traffic_light_cycle=", "set_dur": "TrafficLightCycleElement.duration=(held)",
+             "set_state": "TrafficLightCycleElement.state=(held)", "list_edit": "cycle_elements.list-edit(in-place)"}
 
 
 def run_obs(ctx, case, model=True):
@@ -608,12 +1100,36 @@ def run_obs(ctx, case, model=True):
     ctx.tag("fam/obs")
     dynamic = case["dynamic"]
     init = b_init(case["init"])
+    oid, otype = case.get("oid", 7), list(ObstacleType)[case.get("otype", 0) % len(ObstacleType)]
+    series = [b_signal(k + 1) for k in range(2)] if case.get("series") else None
+    hist0 = case.get("hist0") or []
+    if oid != 7:
+        ctx.tag("dim/obstacle-id")
+    if series:
+        ctx.tag("dim/signal-series")
+    if case["shape"]["k"] == "group":
+        ctx.tag("dim/shape-group")
     if dynamic:
-        obs = DynamicObstacle(7, ObstacleType.CAR, b_shape(case["shape"]), init, b_pred(case["pred"]), b_ids(case["cen"]), b_ids(case["shp"]),
-                              b_signal(case["sig"]))
+        kw = {}
+        if case.get("owb"):
+            kw["wheelbase_lengths"] = list(case["owb"])
+            ctx.tag("dim/obstacle-wheelbase")
+        if hist0:
+            ctx.tag("dim/ctor-history")
+            kw.update(history=[b_init(h["st"]) for h in hist0], signal_history=[b_signal(h["sig"]) for h in hist0],
+                      center_lanelet_ids_history=[b_ids(h["cen"]) for h in hist0], shape_lanelet_ids_history=[b_ids(h["shp"]) for h in hist0])
+        obs = DynamicObstacle(oid, otype, b_shape(case["shape"]), init, b_pred(case["pred"]), b_ids(case["cen"]), b_ids(case["shp"]),
+                              b_signal(case["sig"]), series, **kw)
     else:
         ctx.tag("obs/static")
-        obs = StaticObstacle(7, ObstacleType.PARKED_VEHICLE, b_shape(case["shape"]), init, b_ids(case["cen"]), b_ids(case["shp"]), b_signal(case["sig"]))
+        obs = StaticObstacle(oid, otype, b_shape(case["shape"]), init, b_ids(case["cen"]), b_ids(case["shp"]), b_signal(case["sig"]), series)
+    p0 = case["pred"]
+    if p0 is not None and p0["k"] == "traj":
+        ctx.tag("dim/state-class-" + p0["traj"].get("cls", "ks"))
+        if p0["traj"].get("steps"):
+            ctx.tag("dim/trajectory-gap")
+        if p0.get("asg") or p0.get("wb"):
+            ctx.tag("dim/prediction-ctor-options")
     scen = None
     if case["wrap"] == "scenario":
         ctx.tag("wrap/scenario")
@@ -633,27 +1149,47 @@ def run_obs(ctx, case, model=True):
         if sp is None:
             return None
         if sp["k"] == "traj":
-            return {"k": "traj", "shape": v, "traj": [v, sp["traj"]["t0"], len(sp["traj"]["states"])], "queried": bool(sp.get("queried"))}
-        return {"k": "setb", "v": v, "t0": sp["t0"], "len": len(sp["occ"])}
+            return {"k": "traj", "shape": v, "traj": [v, sp["traj"]["t0"], traj_steps(sp["traj"])], "queried": bool(sp.get("queried"))}
+        return {"k": "setb", "v": v, "ivs": occ_ivs(sp["occ"], sp["t0"])}
+
+    def cur_ivs():
+        """time steps / intervals of the set-based prediction as the public getter shows them now"""
+        from commonroad.common.util import Interval
+        return [[int(o.time_step.start), int(o.time_step.end)] if isinstance(o.time_step, Interval) else [int(o.time_step), int(o.time_step)]
+                for o in obs.prediction.occupancy_set]
 
     snapshot(0)
     if case["pred"] is not None and case["pred"]["k"] == "setb":
         ctx.tag("obs/setbased")
+    HBASE = 100000            # version tokens of the states handed to the constructor as history
+    for i, h in enumerate(hist0):
+        snaps[HBASE + i] = {"init": b_init(h["st"])}
     m_obs = {"dynamic": dynamic, "shape": 0, "init": 0, "t0": case["init"]["t"], "pred": pred_tok(case["pred"], 0),
-             "sig": case["sig"], "cen": case["cen"], "shp": case["shp"]}
+             "sig": case["sig"], "cen": case["cen"], "shp": case["shp"],
+             "hist": [[HBASE + i, []] for i in range(len(hist0))], "sigh": [h["sig"] for h in hist0], "cenh": [h["cen"] for h in hist0],
+             "shph": [h["shp"] for h in hist0]}
     m_ops, impl, kinds = [], [], []
     # independent bookkeeping for the history clause
-    exp_hist, exp_sig, exp_cen, exp_shp, all_prev, bounds = [], [], [], [], [], set()
+    exp_hist = [c_state(b_init(h["st"])) for h in hist0]
+    exp_sig = [c_signal(b_signal(h["sig"])) for h in hist0]
+    exp_cen = [plain(b_ids(h["cen"])) for h in hist0]
+    exp_shp = [plain(b_ids(h["shp"])) for h in hist0]
+    all_prev, bounds = list(exp_hist), set()
     v = 0
     last_mut = "construction"
     shape_obs = copy.deepcopy(obs.obstacle_shape)
-    taint = {"occ": None}     # the held-trajectory mutator applied since the occupancy cache was last dropped
+    taint = {"occ": None, "app": None}     # the held-trajectory mutators applied since the occupancy cache was last dropped
     motions = {}              # version -> (translation, angle) of the obstacle / scenario level translate_rotate calls
 
     def oracle(kind, t, got, what, idx):
         item = "state" if kind == "q_state" else ("initialOccupancy" if (kind == "q_occ" and (not dynamic or t == obs.initial_state.time_step))
                                                   else "occupancySet")
-        fr = fresh_obstacle(obs)
+        rb = call(fresh_obstacle, obs)
+        if rb[0] == "err":
+            ctx.fail(f"C11/{what}/primary-data-not-constructible-after/{last_mut}",
+                     f"after {last_mut} the public constructors reject the obstacle's own primary data ({rb[2]}): a mutator left it half changed", case)
+            return
+        fr = rb[1]
         if kind == "q_occ":
             want = res(call(fr.occupancy_at_time, t), c_occ)
         elif kind == "q_state":
@@ -671,9 +1207,30 @@ def run_obs(ctx, case, model=True):
     for idx, op in enumerate(case["ops"]):
         k = op[0]
         if k.startswith("q_"):
+            by_scen = len(op) > 2 and scen is not None and obs.obstacle_id in [o.obstacle_id for o in scen.obstacles]
+            if by_scen:
+                ctx.tag("dim/query-through-scenario")
+            if k == "q_span":
+                # read-only attributes of the prediction, read before the observation (they fill / walk the caches)
+                pp = obs.prediction
+                if pp is not None:
+                    fp = fresh_pred(pp)
+                    g = [res(call(lambda: pp.initial_time_step), plain), res(call(lambda: pp.final_time_step), plain), res(call(lambda: len(pp.occupancy_set)))]
+                    w = [res(call(lambda: fp.initial_time_step), plain), res(call(lambda: fp.final_time_step), plain), res(call(lambda: len(fp.occupancy_set)))]
+                    if isinstance(pp, TrajectoryPrediction):
+                        rows.query("occupancySet")
+                    if not same(g, w):
+                        stale(ctx, case, idx, "prediction.occupancy_set", rows.blame("occupancySet"),
+                              f"prediction time span / number of occupancies after {{M}} is {g}; a rebuilt prediction has {w}",
+                              taint=taint["app"] or taint["occ"])      # (only an appended state changes the NUMBER of occupancies)
+                    ctx.tag("dim/read-only-span")
+                continue
             if k == "q_occ":
                 t = op[1]
-                got = res(call(obs.occupancy_at_time, t), c_occ)
+                if by_scen:
+                    got = res(call(scen.occupancies_at_time_step, t), lambda l: c_occ(l[0]) if l else None)
+                else:
+                    got = res(call(obs.occupancy_at_time, t), c_occ)
                 if not dynamic or t == obs.initial_state.time_step:
                     rows.query("initialOccupancy")
                 elif t > obs.initial_state.time_step and isinstance(obs.prediction, TrajectoryPrediction):
@@ -682,7 +1239,10 @@ def run_obs(ctx, case, model=True):
                 m_ops.append(["q_occ", t])
             elif k == "q_state":
                 t = op[1]
-                got = res(call(obs.state_at_time, t), c_state)
+                if by_scen:
+                    got = res(call(scen.obstacle_states_at_time_step, t), lambda d: c_state(d.get(obs.obstacle_id)))
+                else:
+                    got = res(call(obs.state_at_time, t), c_state)
                 oracle(k, t, got, "obstacle.state_at_time", idx)
                 m_ops.append(["q_state", t])
             elif k == "q_pocc":
@@ -812,13 +1372,15 @@ def run_obs(ctx, case, model=True):
                 rows.mutate("occupancySet", "trajTranslateRotate")
                 m_ops.append(["t_tr", v])
             elif k == "t_app":
-                from commonroad.scenario.state import KSState
-                st_new = KSState(time_step=p.trajectory.final_state.time_step + 1, position=np.array(op[1][:2], dtype=float),
-                                 orientation=op[1][2], velocity=op[1][3])
-                r = call(p.trajectory.append_state, st_new)
+                gap = op[2] if len(op) > 2 else 0
+                t_new = p.trajectory.final_state.time_step + 1 + gap
+                cls = "pm" if type(p.trajectory.final_state).__name__ == "PMState" else ("unc" if not isinstance(p.trajectory.final_state.position, np.ndarray) else "ks")
+                r = call(p.trajectory.append_state, b_tstate(cls, t_new, op[1]))
                 ctx.tag("mut/held-trajectory-append")
+                if gap:
+                    ctx.tag("dim/trajectory-gap")
                 rows.mutate("occupancySet", "trajAppendState")
-                m_ops.append(["t_app", v])
+                m_ops.append(["t_app", v, t_new])
             elif k == "p_tr":
                 r = call(p.translate_rotate, np.array(op[1], dtype=float), op[2])
                 rows.mutate("occupancySet", "predTranslateRotate")
@@ -843,7 +1405,10 @@ def run_obs(ctx, case, model=True):
                         p.trajectory = b_traj(op[1])
                 r = call(f)
                 rows.mutate("occupancySet", "predSetTrajectory")
-                m_ops.append(["p_traj", [v, op[1]["t0"], len(op[1]["states"])]])
+                m_ops.append(["p_traj", [v, op[1]["t0"], traj_steps(op[1])]])
+                if op[1].get("steps"):
+                    ctx.tag("dim/trajectory-gap")
+                ctx.tag("dim/state-class-" + op[1].get("cls", "ks"))
             elif k == "p_wb":
                 def f():
                     p.wheelbase_lengths = op[1]
@@ -861,6 +1426,60 @@ def run_obs(ctx, case, model=True):
                 r = call(f)
                 rows.mutate("occupancySet", "predSetAssignment")
                 m_ops.append(["p_asg"])
+        elif k == "set_meta":
+            def f():
+                obs.initial_signal_state = b_signal(op[1])
+                obs.initial_center_lanelet_ids = b_ids(op[2])
+                obs.initial_shape_lanelet_ids = b_ids(op[3])
+            r = call(f)
+            ctx.tag("dim/meta-setters")
+            m_ops.append(["set_meta", op[1], op[2], op[3]])
+        elif k == "fail":
+            fk = op[1]
+            from commonroad.scenario.state import KSState
+            bad_state = KSState(time_step=0, position=np.array([0.0, 0.0]), orientation=0.0, velocity=0.0)
+
+            def f():
+                if fk == "set_init_type":
+                    obs.initial_state = bad_state                 # not an InitialState
+                elif fk == "tr_angle":
+                    obs.translate_rotate(np.array([1.0, 2.0]), 7.0)      # angle outside [-2 pi, 2 pi]
+                elif fk == "set_pred_type":
+                    obs.prediction = 5
+                elif fk == "t_app_past":
+                    p.trajectory.append_state(b_tstate("ks", p.trajectory.final_state.time_step, [0.0, 0.0, 0.0, 0.0]))   # not a later step
+                elif fk == "p_shape_type":
+                    p.shape = 3
+                elif fk == "p_traj_type":
+                    p.trajectory = [1, 2]
+            if fk in ("t_app_past", "p_shape_type", "p_traj_type") and not isinstance(p, TrajectoryPrediction):
+                v -= 1
+                continue
+            r = call(f)
+            if r[0] == "ok":
+                ctx.fail(f"C11/{fk}/accepted", f"the malformed call {fk} did not raise", case)
+            ctx.tag("dim/raising-mutator-then-queries")
+            m_ops.append(["failed", r[1] if r[0] == "err" else "other"])
+        elif k == "p_occs":
+            from commonroad.prediction.prediction import SetBasedPrediction
+            if not isinstance(p, SetBasedPrediction):
+                v -= 1
+                continue
+            how = op[1]
+
+            def f():
+                if how == "setter":
+                    p.occupancy_set = b_occs(op[2], p.initial_time_step)
+                elif how == "tr":
+                    p.occupancy_set[op[2]].translate_rotate(np.array(op[3], dtype=float), op[4])
+                elif how == "shape":
+                    p.occupancy_set[op[2]].shape = b_shape(op[3])
+                else:
+                    from commonroad.common.util import Interval
+                    p.occupancy_set[op[2]].time_step = op[3] if isinstance(op[3], int) else Interval(op[3][0], op[3][1])
+            r = call(f)
+            ctx.tag("dim/setbased-" + how)
+            m_ops.append(["p_occs", v, cur_ivs()])
         else:
             raise InfraError(f"unknown obs op {k}")
         last_mut = "Scenario.translate_rotate" if (k == "tr" and op[3] == "scenario") else MUT_NAMES[k]
@@ -868,14 +1487,14 @@ def run_obs(ctx, case, model=True):
         if r[0] == "ok":
             if k in ("t_tr", "t_app"):
                 taint["occ"] = taint["occ"] or last_mut
+                if k == "t_app":
+                    taint["app"] = last_mut
             elif k in ("tr", "p_tr", "p_shape", "p_traj", "p_wb", "set_pred") or (k == "update" and obs.prediction is None):
-                taint["occ"] = None      # these drop the occupancy cache (or bring another prediction object)
+                taint["occ"] = taint["app"] = None      # these drop the occupancy cache (or bring another prediction object)
         snapshot(v)
         impl.append("ok" if r[0] == "ok" else {"err": r[1]})
         kinds.append(k)
-        if r[0] == "err":
-            if not (k == "update" and op[5] is not None and op[5] <= 0):
-                break
+        # every raising mutator generated here raises before it changes anything: the history goes on
 
     ctx.case(case)
     if not model:
@@ -896,12 +1515,13 @@ def run_obs(ctx, case, model=True):
             return c_state(snaps[a[1]]["init"])
         if a[0] == "traj" and len(a) == 4:
             fp = TrajectoryPrediction(copy.deepcopy(snaps[a[2]]["traj"]), copy.deepcopy(snaps[a[1]]["pshape"]))
-            return c_occ(fp.occupancy_at_time_step(a[3]))
+            return res(call(fp.occupancy_at_time_step, a[3]), c_occ)
         if a[0] == "traj":
             return c_state(snaps[a[1]]["traj"].state_at_time_step(a[2]))
         if a[0] == "setb":
+            from commonroad.common.util import Interval
             for o in snaps[a[1]]["occs"]:
-                if o.time_step == a[2]:
+                if (o.time_step.contains(a[2]) if isinstance(o.time_step, Interval) else o.time_step == a[2]):
                     return c_occ(o)
             return None
         return a
@@ -943,6 +1563,10 @@ def g_lanelet(r, lid, allow3d=True):
         sp["z"] = [r.choice([0.0, 1.0, 2.5, 4.0]) * j for j in range(n)]
     if r.random() < 0.3:
         sp["pre"] = r.choice([["dist"], ["inner"], ["dist", "inner"]])
+    if sp["z"] is None and r.random() < 0.12:
+        sp["int"] = True               # integer vertex arrays (translate_rotate turns them into floats)
+    if sp["z"] is None and r.random() < 0.2:
+        sp["stop"] = True              # a stop line, which translate_rotate / convert_to_2d handle before the polygon is rebuilt
     return sp
 
 
@@ -957,13 +1581,17 @@ def lanelet_arrays(sp):
         c.append([x, y] + z)
         le.append([x, y + h] + ([] if sp["z"] is None else [sp["z"][j] * 1.5]))
         ri.append([x, y - h] + z)
+    if sp.get("int"):
+        return tuple(np.rint(np.array(a, dtype=float)).astype(int) for a in (le, c, ri))
     return np.array(le, dtype=float), np.array(c, dtype=float), np.array(ri, dtype=float)
 
 
 def b_lanelet(sp):
-    from commonroad.scenario.lanelet import Lanelet
+    import numpy as np
+    from commonroad.scenario.lanelet import Lanelet, LineMarking, StopLine
     le, c, ri = lanelet_arrays(sp)
-    la = Lanelet(le, c, ri, sp["id"])
+    stop = StopLine(np.array(le[-1][:2], dtype=float), np.array(ri[-1][:2], dtype=float), LineMarking.SOLID) if sp.get("stop") else None
+    la = Lanelet(le, c, ri, sp["id"], stop_line=stop)
     for q in sp["pre"]:
         _ = la.distance if q == "dist" else la.inner_distance
     return la
@@ -979,12 +1607,39 @@ def lan_tok(sp, v):
             "inner": v if "inner" in sp["pre"] else None}
 
 
-def q_lanelet(la, k):
+def q_lanelet(la, k, how=None):
+    """the cached values of a lanelet, read directly or through the other public readers of the same caches"""
+    import numpy as np
     if k == "q_poly":
+        if how == "convert":
+            return res(call(lambda: la.convert_to_polygon().vertices), plain)          # deprecated alias of .polygon
+        if how == "contains":
+            c = la.center_vertices
+            pts = np.array([[(c[0][0] + c[1][0]) / 2.0, (c[0][1] + c[1][1]) / 2.0], [c[0][0] - 50.0, c[0][1] + 33.0]], dtype=float)
+            return res(call(la.contains_points, pts), plain)
         return res(call(lambda: la.polygon.vertices), plain)
     if k == "q_dist":
+        if how == "interp":
+            # interpolate_position walks the cumulative distances (and fills the cache); 37 % of the lanelet's length as the vertices give it
+            d = 0.37 * float(np.sum(np.linalg.norm(np.diff(la.center_vertices, axis=0), axis=1)))
+            return res(call(la.interpolate_position, d), lambda v: [plain(v[0]), plain(v[1]), plain(v[2]), int(v[3])])
         return res(call(lambda: la.distance), plain)
     return res(call(lambda: la.inner_distance), plain)
+
+
+def ask_lanelet(ctx, la, k, how):
+    """(answer used for the correspondence, [(reader name, got, want)] judged by the oracle against a rebuilt lanelet)"""
+    fr = fresh_lanelet(la)
+    checks = []
+    if how == "interp":
+        ctx.tag("dim/lanelet-reader-interpolate")
+        checks.append(("lanelet.interpolate_position", q_lanelet(la, k, "interp"), q_lanelet(fr, k, "interp")))
+        how = None
+    elif how:
+        ctx.tag("dim/lanelet-reader-" + how)
+    got = q_lanelet(la, k, how)
+    checks.append((LAN_Q[k], got, q_lanelet(fr, k, how)))
+    return got, checks
 
 
 LAN_ITEM = {"q_poly": "laneletPolygon", "q_dist": "laneletDistance", "q_inner": "laneletInnerDistance"}
@@ -1001,6 +1656,11 @@ def gen_lan(ctx):
 
     def queries():
         qs = [[q] for q in ("q_poly", "q_dist", "q_inner") if r.random() < 0.8] or [["q_dist"]]
+        for q in qs:
+            if q[0] == "q_poly" and r.random() < 0.3:
+                q.append(r.choice(["convert", "contains"]))
+            if q[0] == "q_dist" and r.random() < 0.3 and not is3d:
+                q.append("interp")
         r.shuffle(qs)
         return qs
     ops += queries()
@@ -1025,29 +1685,35 @@ def run_lan(ctx, case, model=True):
     sp = case["lan"]
     if sp["z"] is not None:
         ctx.tag("lan/3d")
+    if sp.get("int"):
+        ctx.tag("dim/lanelet-int-vertices")
+    if sp.get("stop"):
+        ctx.tag("dim/lanelet-stop-line")
     la = b_lanelet(sp)
     for q in sp["pre"]:
         rows.query("laneletDistance" if q == "dist" else "laneletInnerDistance")
     rows.query("laneletPolygon")
     snaps = {0: fresh_lanelet(la)}
-    m_ops, impl, kinds = [], [], []
+    m_ops, impl, kinds, hows = [], [], [], []
     v = 0
     last_mut = "construction"
     for idx, op in enumerate(case["ops"]):
         k = op[0]
         if k.startswith("q_"):
-            got = q_lanelet(la, k)
+            how = op[1] if len(op) > 1 else None
+            got, checks = ask_lanelet(ctx, la, k, how)
             rows.query(LAN_ITEM[k])
-            want = q_lanelet(fresh_lanelet(la), k)
-            if same(got, want):
-                rows.agreed(LAN_ITEM[k])
-            else:
-                stale(ctx, case, idx, LAN_Q[k], rows.blame(LAN_ITEM[k]),
-                      f"{LAN_Q[k]} after {{M}} is {json.dumps(got)[:160]}; a lanelet rebuilt from the current vertices gives "
-                      f"{json.dumps(want)[:160]}")
+            for name, g, w in checks:
+                if same(g, w):
+                    rows.agreed(LAN_ITEM[k])
+                else:
+                    stale(ctx, case, idx, name, rows.blame(LAN_ITEM[k]),
+                          f"{name} after {{M}} is {json.dumps(g)[:160]}; a lanelet rebuilt from the current vertices gives "
+                          f"{json.dumps(w)[:160]}")
             impl.append(got)
             m_ops.append([k])
             kinds.append(k)
+            hows.append(None if how == "interp" else how)
             continue
         v += 1
         if k == "tr":
@@ -1067,13 +1733,13 @@ def run_lan(ctx, case, model=True):
         snaps[v] = fresh_lanelet(la)
         impl.append("ok" if r[0] == "ok" else {"err": r[1]})
         kinds.append(k)
-        if r[0] == "err":
-            break
+        hows.append(None)
+        # translate_rotate on 3-D vertices raises before anything is assigned: the history goes on
     ctx.case(case)
     if not model:
         return
     out = ctx.driver.ask("C11", "lan_run", {"lan": lan_tok(sp, 0), "ops": m_ops})
-    model_out = [q_lanelet(fresh_lanelet(snaps[a]), k) if (k.startswith("q_") and isinstance(a, int)) else a for k, a in zip(kinds, out)]
+    model_out = [q_lanelet(fresh_lanelet(snaps[a]), k, h) if (k.startswith("q_") and isinstance(a, int)) else a for k, a, h in zip(kinds, out, hows)]
     compare(ctx, case, impl, model_out, "lanelet history vs CR.Cache.Lan.run")
 
 
@@ -1087,7 +1753,7 @@ def gen_net(ctx):
     for _ in range(n0):
         lans.append(g_lanelet(r, next_id, allow3d))
         next_id += 1
-    case = {"fam": "net", "wrap": wrap, "built": "list" if n0 else "empty", "lanelets": lans, "ops": []}
+    case = {"fam": "net", "wrap": wrap, "built": "list" if n0 else "empty", "lanelets": lans, "ops": [], "cleanup": r.random() < 0.5}
     present = {sp["id"]: sp["z"] is not None for sp in lans}   # id -> is3d
     seen = {sp["id"]: [0] for sp in lans}                      # id -> versions at which its place changed (for old-place probes)
     ops = case["ops"]
@@ -1106,9 +1772,14 @@ def gen_net(ctx):
                 if lid not in present and r.random() < 0.7:
                     pts.append([lid, seen[lid][-1], 0])
             pts.append([0, "far", 0])
-            qs.append(["q_find", r.choice(["pos", "pos", "circle", "rect"]), pts])
+            qs.append(["q_find", r.choice(["pos", "pos", "circle", "rect", "state", "subnet"]), pts])
         for lid in r.sample(sorted(present), min(len(present), 2)):
-            qs.append([r.choice(["q_poly", "q_dist", "q_inner"]), lid])
+            q = [r.choice(["q_poly", "q_dist", "q_inner"]), lid]
+            if q[0] == "q_poly" and r.random() < 0.3:
+                q.append(r.choice(["convert", "contains"]))
+            if q[0] == "q_dist" and r.random() < 0.3 and not present[lid]:
+                q.append("interp")
+            qs.append(q)
         r.shuffle(qs)
         return qs
     ops += queries()
@@ -1120,8 +1791,45 @@ def gen_net(ctx):
             kinds += ["add_from"]
         if present:
             kinds += ["l_tr", "l_tr", "l_to2d"]
+        kinds += ["create_from", "fail"]
+        if wrap == "scenario":
+            kinds += ["replace", "replace"] + (["remove_many"] if len(present) >= 2 else [])
         k = r.choice(kinds)
         v += 1
+        if k == "create_from":
+            # continue on the network built by the alternative constructor create_from_lanelet_network (unwrapped networks only)
+            if wrap == "scenario":
+                v -= 1
+                continue
+            ops.append(["create_from"])
+            tree = True
+            ops += queries()
+            continue
+        if k == "fail":
+            # a mutator that raises before it changes anything; the history goes on
+            ops.append(["fail", r.choice(["tr_angle", "add_type", "tr_vector"])])
+            ops += queries()
+            continue
+        if k == "replace":
+            sps = []
+            for _i in range(r.choice([1, 2, 3])):
+                sps.append(g_lanelet(r, next_id, False))
+                next_id += 1
+            ops.append(["replace", sps, r.choice(["replace_lanelet_network", "add_objects"])])
+            present = {sp["id"]: False for sp in sps}
+            for sp in sps:
+                seen[sp["id"]] = [v]
+            tree = True
+            ops += queries()
+            continue
+        if k == "remove_many":
+            ids = r.sample(sorted(present), 2)
+            ops.append(["remove_many", ids])        # the list form of Scenario.remove_lanelet
+            for lid in ids:
+                present.pop(lid, None)
+            v += 1                                    # (two removals for the model)
+            ops += queries()
+            continue
         if k in ("l_tr", "l_to2d"):
             # a mutator of ONE lanelet the network holds: network.find_lanelet_by_id(id).translate_rotate(…) / .convert_to_2d()
             flat = [lid for lid, z in present.items() if not z]
@@ -1145,7 +1853,7 @@ def gen_net(ctx):
         if k == "add_from":
             sps = []
             for _i in range(r.choice([1, 2, 3])):
-                if present and r.random() < 0.15:
+                if present and r.random() < 0.25:
                     sps.append(g_lanelet(r, r.choice(sorted(present)), allow3d))     # already there: refused, and the loop stops adding
                 else:
                     sps.append(g_lanelet(r, next_id, allow3d))
@@ -1181,7 +1889,7 @@ def gen_net(ctx):
             tree = rt or tree
         elif k == "tr":
             if any(present.values()):
-                if r.random() < 0.7:
+                if r.random() < 0.5:
                     ops.append(["to2d", "scenario" if wrap == "scenario" and r.random() < 0.5 else "net"])
                     for lid in present:
                         present[lid] = False
@@ -1223,6 +1931,20 @@ def q_find(net, kind, pts):
     if kind == "pos":
         return res(call(net.find_lanelet_by_position, [np.array(p, dtype=float) for p in pts]), lambda v: [sorted(int(i) for i in x) for x in v])
     out = []
+    if kind == "state":
+        # the lookup behind obstacle assignment: one state at a time (it raises IndexError where no lanelet is found)
+        from commonroad.scenario.state import KSState
+        for p in pts:
+            st = KSState(time_step=0, position=np.array(p, dtype=float), orientation=0.0, velocity=0.0)
+            out.append(res(call(net.find_most_likely_lanelet_by_state, [st]), lambda v: [int(i) for i in v]))
+        return out
+    if kind == "subnet":
+        # the alternative constructor with a region: it selects the lanelets through the source network's spatial index
+        from commonroad.scenario.lanelet import LaneletNetwork
+        for p in pts:
+            out.append(res(call(LaneletNetwork.create_from_lanelet_network, net, Circle(0.4, np.array(p, dtype=float))),
+                           lambda n: sorted(int(l.lanelet_id) for l in n.lanelets)))
+        return out
     for p in pts:
         sh = Circle(0.4, np.array(p, dtype=float)) if kind == "circle" else Rectangle(0.6, 0.4, np.array(p, dtype=float), 0.3)
         out.append(res(call(net.find_lanelet_by_shape, sh), lambda v: sorted(int(i) for i in v)))
@@ -1240,9 +1962,14 @@ def run_net(ctx, case, model=True):
     if any(sp["z"] is not None for sp in case["lanelets"]):
         ctx.tag("net/3d")
     if case["built"] == "list":
-        net = LaneletNetwork.create_from_lanelet_list(lans, cleanup_ids=False)
+        net = LaneletNetwork.create_from_lanelet_list(lans, cleanup_ids=bool(case.get("cleanup")))
     else:
         net = LaneletNetwork()
+    for sp in case["lanelets"]:
+        if sp.get("int"):
+            ctx.tag("dim/lanelet-int-vertices")
+        if sp.get("stop"):
+            ctx.tag("dim/lanelet-stop-line")
     scen = None
     if case["wrap"] == "scenario":
         ctx.tag("wrap/scenario")
@@ -1266,7 +1993,7 @@ def run_net(ctx, case, model=True):
     suspended = False       # an rtree=False call asked for a stale index (an empty LaneletNetwork() has an empty index, fix 790d303)
     taint = {}              # lanelet id -> the member-level mutator that moved it since its index entry was last rebuilt
     rebuilt_while_tainted = [False]
-    lan_mut = {}            # lanelet id -> last lanelet-level mutator name
+    half_moved = [False]    # a network-level translate_rotate raised half way (3-D lanelet): some lanelets moved, the index was not rebuilt
 
     for idx, op in enumerate(case["ops"]):
         k = op[0]
@@ -1286,16 +2013,43 @@ def run_net(ctx, case, model=True):
                         ctx.tag("net/old-place")
                 if src is not None:
                     pts.append(probe_point(src, j))
-            if op[1] != "pos":
+            qkind = op[1]
+            if qkind == "state" and (taint or suspended or half_moved[0]):
+                qkind = "pos"      # (with a stale entry the tie-break of this lookup mixes old polygons and new vertices)
+            if qkind != "pos":
                 ctx.tag("net/by-shape")
-            got = q_find(nw, op[1], pts)
+            if qkind in ("state", "subnet"):
+                ctx.tag("dim/index-reader-" + qkind)
+            if qkind == "subnet":
+                # create_from_lanelet_network(network, region) selects by the CURRENT polygon of every lanelet (not by the index):
+                # a reader of the lanelets' polygon caches, judged by the oracle only
+                got = q_find(nw, qkind, pts)
+                want = q_find(fresh_network(nw.lanelets), qkind, pts)
+                rows.query("laneletPolygon")
+                if not same(got, want):
+                    stale(ctx, case, idx, "create_from_lanelet_network", rows.blame("laneletPolygon"),
+                          f"create_from_lanelet_network(network, region) after {{M}} selects {json.dumps(got)[:160]} for {json.dumps(pts)[:120]}; "
+                          f"on a network rebuilt from the current lanelets it selects {json.dumps(want)[:160]}")
+                continue
+            if qkind == "state":
+                # find_most_likely_lanelet_by_state reads the index AND the current vertices (tie-break by orientation): judged by the
+                # oracle only (the model's tokens would mix index versions and vertex versions)
+                got = q_find(nw, qkind, pts)
+                want = q_find(fresh_network(nw.lanelets), qkind, pts)
+                rows.query("networkIndex")
+                if not same(got, want):
+                    stale(ctx, case, idx, "find_most_likely_lanelet_by_state", rows.blame("networkIndex"),
+                          f"find_most_likely_lanelet_by_state after {{M}} answers {json.dumps(got)[:160]} for {json.dumps(pts)[:120]}; a network "
+                          f"rebuilt from the current lanelets answers {json.dumps(want)[:160]}")
+                continue
+            got = q_find(nw, qkind, pts)
             rows.query("networkIndex")
-            if not suspended:
-                want = q_find(fresh_network(nw.lanelets), op[1], pts)
+            if not suspended and not half_moved[0]:
+                want = q_find(fresh_network(nw.lanelets), qkind, pts)
                 if same(got, want):
                     rows.agreed("networkIndex")
                 else:
-                    site = "find_lanelet_by_position" if op[1] == "pos" else "find_lanelet_by_shape"
+                    site = "find_lanelet_by_position" if qkind in ("pos", "state") else "find_lanelet_by_shape"
                     if taint and rebuilt_while_tainted[0]:
                         ctx.tag("net/stale-entry-survives-rebuild")
                     stale(ctx, case, idx, site, rows.blame("networkIndex"),
@@ -1303,25 +2057,26 @@ def run_net(ctx, case, model=True):
                           f"current lanelets answers {json.dumps(want)[:160]}", taint=next(iter(taint.values())) if taint else None)
             impl.append(got)
             kinds.append(k)
-            qargs.append((op[1], pts))
+            qargs.append((qkind, pts))
             m_ops.append(["q_find"])
             continue
         if k in LAN_ITEM:
             la = next((x for x in nw.lanelets if x.lanelet_id == op[1]), None)
             if la is None:
                 continue
-            got = q_lanelet(la, k)
+            how = op[2] if len(op) > 2 else None
+            got, checks = ask_lanelet(ctx, la, k, how)
             rows.query(LAN_ITEM[k])
-            want = q_lanelet(fresh_lanelet(la), k)
-            if same(got, want):
-                rows.agreed((LAN_ITEM[k], op[1]))
-            else:
-                stale(ctx, case, idx, LAN_Q[k], rows.blame((LAN_ITEM[k], op[1])),
-                      f"{LAN_Q[k]} of lanelet {op[1]} after {{M}} is {json.dumps(got)[:160]}; a lanelet rebuilt from the current "
-                      f"vertices gives {json.dumps(want)[:160]}")
+            for name, g, w in checks:
+                if same(g, w):
+                    rows.agreed((LAN_ITEM[k], op[1]))
+                else:
+                    stale(ctx, case, idx, name, rows.blame((LAN_ITEM[k], op[1])),
+                          f"{name} of lanelet {op[1]} after {{M}} is {json.dumps(g)[:160]}; a lanelet rebuilt from the current "
+                          f"vertices gives {json.dumps(w)[:160]}")
             impl.append(got)
             kinds.append(k)
-            qargs.append(None)
+            qargs.append(None if how == "interp" else how)
             m_ops.append([k, op[1]])
             continue
         # ---------------- mutators
@@ -1387,6 +2142,10 @@ def run_net(ctx, case, model=True):
                 rows.mutate(it, "netTranslateRotate")
             if r[0] == "ok":
                 taint.clear()                 # the network-level translate_rotate rebuilds every entry
+                half_moved[0] = False
+            else:
+                half_moved[0] = True          # raised at a 3-D lanelet: the lanelets before it are moved, the index is as it was
+                ctx.tag("dim/half-moved-network-then-queries")
             m_ops.append(["tr", v])
             out = "ok" if r[0] == "ok" else {"err": r[1]}
         elif k == "to2d":
@@ -1419,6 +2178,71 @@ def run_net(ctx, case, model=True):
                     rows.mutate(it, "lanConvert2d")
                 m_ops.append(["l_to2d", op[1], v])
             out = "ok" if r[0] == "ok" else {"err": r[1]}
+        elif k == "create_from":
+            if scen is not None:
+                v -= 1
+                continue
+            r = call(LaneletNetwork.create_from_lanelet_network, net)
+            if r[0] == "ok":
+                net = r[1]
+                taint.clear()
+                suspended, half_moved[0] = False, False
+            ctx.tag("dim/create-from-network")
+            rows.mutate("networkIndex", "netCreateFrom")
+            m_ops.append(["create_from"])
+            out = "ok" if r[0] == "ok" else {"err": r[1]}
+        elif k == "replace":
+            if scen is None:
+                v -= 1
+                continue
+            newnet = LaneletNetwork.create_from_lanelet_list([b_lanelet(sp) for sp in op[1]], cleanup_ids=False)
+            r = call(scen.replace_lanelet_network, newnet) if op[2] == "replace_lanelet_network" else call(scen.add_objects, newnet)
+            if r[0] == "ok":
+                taint.clear()
+                suspended, half_moved[0] = False, False
+            ctx.tag("dim/replace-network")
+            rows.mutate("networkIndex", "netReplace")
+            for it in LAN_ITEM.values():
+                rows.mutate(it, "netReplace")
+            m_ops.append(["replace", [[sp["id"], lan_tok(sp, v)] for sp in op[1]]])
+            out = "ok" if r[0] == "ok" else {"err": r[1]}
+        elif k == "remove_many":
+            if scen is None:
+                v -= 1
+                continue
+            objs = [x for x in nw.lanelets if x.lanelet_id in op[1]]
+            r = call(scen.remove_lanelet, objs)
+            ctx.tag("dim/remove-lanelet-list")
+            rows.mutate("networkIndex", "netRemoveLanelet")
+            if r[0] == "ok":
+                for lid in op[1]:
+                    taint.pop(lid, None)
+            out = "ok" if r[0] == "ok" else {"err": r[1]}
+            # for the model: one removal per lanelet (the first one is recorded here, the last one below)
+            for lid in op[1][:-1]:
+                m_ops.append(["remove", lid, True])
+                snapshot(v)
+                impl.append(out)
+                kinds.append("remove")
+                qargs.append(None)
+                v += 1
+            m_ops.append(["remove", op[1][-1], True])
+        elif k == "fail":
+            fk = op[1]
+
+            def f():
+                if fk == "tr_angle":
+                    nw.translate_rotate(np.array([1.0, 2.0]), 7.0)             # angle outside [-2 pi, 2 pi]
+                elif fk == "tr_vector":
+                    nw.translate_rotate(np.array([1.0, 2.0, 3.0]), 0.3)        # not a 2-vector
+                else:
+                    nw.add_lanelet(5)                                          # not a Lanelet
+            r = call(f)
+            if r[0] == "ok":
+                ctx.fail(f"C11/{fk}/accepted", f"the malformed call {fk} did not raise", case)
+            ctx.tag("dim/raising-mutator-then-queries")
+            m_ops.append(["failed", r[1] if r[0] == "err" else "other"])
+            out = {"err": r[1]} if r[0] == "err" else "ok"
         elif k in ("deepcopy", "pickle"):
             if taint:
                 rebuilt_while_tainted[0] = True
@@ -1440,10 +2264,9 @@ def run_net(ctx, case, model=True):
         rows.did(last_mut)
         snapshot(v)
         impl.append(out)
-        kinds.append(k)
+        kinds.append("remove" if k == "remove_many" else k)
         qargs.append(None)
-        if r[0] == "err":
-            break
+        # the history goes on after a mutator raised: the model says what state it leaves
 
     ctx.case(case)
     if not model:
@@ -1455,7 +2278,7 @@ def run_net(ctx, case, model=True):
             model_out.append(q_find(fresh_network([snaps[ver][lid] for lid, ver in a]), qa[0], qa[1]))
         elif k in LAN_ITEM and isinstance(a, int):
             lid = m_ops[len(model_out)][1]
-            model_out.append(q_lanelet(fresh_lanelet(snaps[a][lid]), k))
+            model_out.append(q_lanelet(fresh_lanelet(snaps[a][lid]), k, qa))
         elif k == "add" and impl[len(model_out)] is None:
             model_out.append(None if a is True else a)
         else:
@@ -1492,12 +2315,45 @@ def cyc_steps(r, es, off):
 def gen_cyc(ctx):
     r = ctx.rng
     es, off = g_cycle(r), r.choice([0, 0, 1, 3, 10, r.randint(0, 40)])
-    case = {"fam": "cyc", "es": es, "off": off, "active": True, "light": r.random() < 0.4, "ops": []}
+    case = {"fam": "cyc", "es": es, "off": off, "active": r.random() < 0.8, "light": r.random() < 0.4, "ops": [],
+            "lactive": r.random() < 0.7}
     ops = case["ops"]
     ops.append(["q", cyc_steps(r, es, off)])
+    ns = len(_states())
     for _ in range(r.choice([1, 2, 3, 4])):
         old = (es, off)
-        k = r.choice(["set_es", "set_es", "set_off", "set_off", "set_active"] + (["replace"] if case["light"] else []))
+        k = r.choice(["set_es", "set_es", "set_off", "set_off", "set_active", "set_dur", "set_state", "list_edit", "copy"]
+                     + (["replace"] if case["light"] else []))
+        if k == "set_dur":
+            # an element the cycle holds gets another duration: cycle.cycle_elements[i].duration = d (the cycle is not told; since fix 233baea
+            # the cached array validates itself when read)
+            i = r.randrange(len(es))
+            d = r.choice([x for x in (1, 2, 4, 7, es[i][1] + 3) if x != es[i][1]])
+            es = [list(e) for e in es]
+            es[i][1] = d
+            ops.append(["set_dur", i, d])
+        elif k == "set_state":
+            i = r.randrange(len(es))
+            es = [list(e) for e in es]
+            es[i][0] = (es[i][0] + 1 + r.randrange(ns - 1)) % ns
+            ops.append(["set_state", i, es[i][0]])
+        elif k == "list_edit":
+            # list methods on the list the getter hands out (it is the cycle's own list)
+            how = r.choice(["append", "insert"] + (["pop"] if len(es) > 1 else []))
+            if how == "append":
+                es = [list(e) for e in es] + [g_cycle(r)[0]]
+            elif how == "insert":
+                es = [g_cycle(r)[0]] + [list(e) for e in es]
+            else:
+                es = [list(e) for e in es][:-1]
+            ops.append(["list_edit", es, how])
+        elif k == "copy":
+            ops.append(["copy", r.choice(["deepcopy", "pickle"])])      # go on with a copy (the cached array is copied along)
+            continue
+        if k in ("set_dur", "set_state", "list_edit"):
+            ts = sorted(set(cyc_steps(r, es, off) + cyc_steps(r, *old)[:6]))
+            ops.append(["q", ts if len(ts) <= 18 else sorted(r.sample(ts, 18))])
+            continue
         if k == "set_es":
             how = r.choice(["new", "new", "same", "iadd"])
             if how == "iadd":
@@ -1544,10 +2400,11 @@ def run_cyc(ctx, case, model=True):
     light = None
     if case["light"]:
         ctx.tag("wrap/light")
-        light = TrafficLight(3, np.array([1.0, 2.0]), cyc)
-    impl = []
+        light = TrafficLight(3, np.array([1.0, 2.0]), cyc, active=bool(case.get("lactive", True)))
+    impl, m_ops = [], []
     last_mut = "construction"
     n_el = len(case["es"])
+    taint = [None]        # the in-place edit (known finding) applied since the cumulative time steps were last dropped
     for idx, op in enumerate(case["ops"]):
         k = op[0]
         c = light.traffic_light_cycle if light is not None else cyc
@@ -1571,11 +2428,43 @@ def run_cyc(ctx, case, model=True):
                     bad = True
                     stale(ctx, case, idx, "get_state_at_time_step", rows.blame("cycleInit"),
                           f"get_state_at_time_step({t}) after {{M}} answers {got}; a cycle rebuilt from the current elements "
-                          f"{es_now} and offset {off_now} answers {want}")
+                          f"{es_now} and offset {off_now} answers {want}", taint=taint[0])
             rows.query("cycleInit")
             if good and not bad:
                 rows.agreed("cycleInit")
             impl.append(outs)
+            m_ops.append(op)
+            continue
+        if k == "copy":
+            f = copy.deepcopy if op[1] == "deepcopy" else (lambda x: pickle.loads(pickle.dumps(x)))
+            if light is not None:
+                light = f(light)
+            else:
+                cyc = f(cyc)
+            ctx.tag("dim/cycle-copy")
+            continue
+        if k in ("set_dur", "set_state", "list_edit"):
+            def f():
+                if k == "set_dur":
+                    c.cycle_elements[op[1]].duration = op[2]
+                elif k == "set_state":
+                    c.cycle_elements[op[1]].state = st[op[2]]
+                elif op[2] == "append":
+                    c.cycle_elements.append(TrafficLightCycleElement(st[op[1][-1][0]], op[1][-1][1]))
+                elif op[2] == "insert":
+                    c.cycle_elements.insert(0, TrafficLightCycleElement(st[op[1][0][0]], op[1][0][1]))
+                else:
+                    c.cycle_elements.pop()
+            r = call(f)
+            mut = {"set_dur": "elemSetDuration", "set_state": "elemSetState", "list_edit": "elemsListEdit"}[k]
+            rows.mutate("cycleInit", mut)
+            ctx.tag("dim/cycle-" + k)
+            if k == "list_edit":
+                n_el = len(op[1])
+            last_mut = CYC_NAMES[k]
+            rows.did(last_mut)
+            impl.append([] if r[0] == "ok" else [{"err": r[1]}])
+            m_ops.append(op[:2] if k == "list_edit" else op)
             continue
         if k == "set_es":
             how = op[2] if len(op) > 2 else "new"
@@ -1619,11 +2508,13 @@ def run_cyc(ctx, case, model=True):
             raise InfraError(f"unknown cycle op {k}")
         last_mut = CYC_NAMES[k]
         rows.did(last_mut)
+        if k in ("set_es", "set_off", "replace") and r[0] == "ok":
+            taint[0] = None          # these drop the cached array (or bring another cycle object)
         impl.append([] if r[0] == "ok" else [{"err": r[1]}])
+        m_ops.append(op[:2] if k == "set_es" else op)     # for the model it is `cycle_elements = <these elements>` either way
     ctx.case(case)
     if not model:
         return
-    m_ops = [op[:2] if op[0] == "set_es" else op for op in case["ops"]]     # for the model it is `cycle_elements = <these elements>` either way
     out = ctx.driver.ask("C11", "cyc_run", {"es": case["es"], "off": case["off"], "active": case["active"], "ops": m_ops})
     ctx.compare(case, impl, out, "traffic light cycle history vs CR.Cache.cycRun")
 
@@ -1653,11 +2544,12 @@ def run_case(ctx, case, model=True):
 
 
 def run(ctx):
+    check_dimensions()
     check_table(ctx)
     for p in sorted(glob.glob(os.path.join(CORPUS_DIR, "C11", "*.json"))):
         run_case(ctx, json.load(open(p)))
     weights = [g for g in GENS for _ in range(g[2])]
-    for _ in range(ctx.n(2000)):
+    for _ in range(ctx.n(2600)):
         fam, gen, _w = ctx.rng.choice(weights)
         run_case(ctx, gen(ctx))
 
